@@ -43,17 +43,25 @@ pub fn dec_body<const N: usize>(t: u16) {
     check!(res[0].is_ok() == spec.ok, "C05: the per-type decoder accepts a payload iff the specification does");
     check!(sa::result_matches(&res[0], &spec), "C05,C20: decoded value / reported error equals the specified one");
 
-    // same input through the contract-monitoring reader (C02)
-    let mut m = MonitorReader::from(rec);
-    let res_m = AVP::try_read_greedy(&mut m);
-    check!(res_m.len() == 1, "C02: result is the same for every conforming reader (count)");
-    check!(res_m[0].is_ok() == res[0].is_ok(), "C02: result is the same for every conforming reader (accept)");
-    check!(sa::result_matches(&res_m[0], &spec), "C02: result is the same for every conforming reader (value)");
-    check!(m.pos == rec.len(), "C02,C08: the monitoring reader is left at the end of the record");
     witness!(true, "completed");
     // the drop glue of heap AVPs whose discriminant is not constant would walk
     // all forty variants; leaking is irrelevant to every property
     std::mem::forget(res);
+}
+
+/// Same record through the contract-monitoring reader (C02).
+pub fn decm_body<const N: usize>(t: u16) {
+    let mut buf = [0u8; MAXREC];
+    build_record::<N>(t, &mut buf);
+    let rec = &buf[..6 + N];
+    let spec = sa::spec_leaf(t, &rec[6..]);
+    let mut m = MonitorReader::from(rec);
+    let res_m = AVP::try_read_greedy(&mut m);
+    check!(res_m.len() == 1, "C02: result is the same for every conforming reader (count)");
+    check!(res_m[0].is_ok() == spec.ok, "C02: result is the same for every conforming reader (accept)");
+    check!(sa::result_matches(&res_m[0], &spec), "C02: result is the same for every conforming reader (value)");
+    check!(m.pos == rec.len(), "C02,C08: the monitoring reader is left at the end of the record");
+    witness!(true, "completed");
     std::mem::forget(res_m);
 }
 
@@ -194,6 +202,14 @@ macro_rules! dec {
     };
 }
 
+macro_rules! decm {
+    ($name:ident, $t:expr, $n:expr) => {
+        pub fn $name() {
+            decm_body::<$n>($t)
+        }
+    };
+}
+
 macro_rules! renc {
     ($name:ident, $t:expr, $n:expr) => {
         pub fn $name() {
@@ -211,589 +227,945 @@ macro_rules! enc {
 }
 
 // GENERATED BY gen.py — BEGIN
-//@ props=C01,C02,C05,C08,C20 tier=thorough unwind=11
+//@ props=C01,C05,C20 tier=thorough unwind=11
 dec!(dec_0_0, 0, 0);
-//@ props=C01,C02,C05,C08,C20 tier=quick unwind=11
+//@ props=C02 tier=thorough unwind=11
+decm!(decm_0_0, 0, 0);
+//@ props=C01,C05,C20 tier=quick unwind=11
 dec!(dec_0_1, 0, 1);
-//@ props=C01,C02,C05,C08,C20 tier=quick unwind=11
+//@ props=C02 tier=thorough unwind=11
+decm!(decm_0_1, 0, 1);
+//@ props=C01,C05,C20 tier=quick unwind=11
 dec!(dec_0_2, 0, 2);
-//@ props=C01,C02,C05,C08,C20 tier=quick unwind=12
-dec!(dec_0_3, 0, 3);
-//@ props=C01,C02,C05,C08,C20 tier=quick unwind=9 stubs=utf8
-dec!(dec_1_0, 1, 0);
-//@ props=C01,C02,C05,C08,C20 tier=quick unwind=10 stubs=utf8
-dec!(dec_1_1, 1, 1);
-//@ props=C01,C02,C05,C08,C20 tier=quick unwind=11 stubs=utf8
-dec!(dec_1_2, 1, 2);
-//@ props=C01,C02,C05,C08,C20 tier=quick unwind=12 stubs=utf8
-dec!(dec_1_3, 1, 3);
-//@ props=C01,C02,C05,C08,C20 tier=quick unwind=13 stubs=utf8
-dec!(dec_1_4, 1, 4);
-//@ props=C01,C02,C05,C08,C20 tier=quick unwind=14 stubs=utf8
-dec!(dec_1_5, 1, 5);
-//@ props=C01,C02,C05,C08,C20 tier=quick unwind=16 stubs=utf8
-dec!(dec_1_7, 1, 7);
-//@ props=C01,C02,C05,C08,C20 tier=thorough unwind=17 stubs=utf8
-dec!(dec_1_8, 1, 8);
-//@ props=C01,C02,C05,C08,C20 tier=thorough unwind=11
-dec!(dec_2_0, 2, 0);
-//@ props=C01,C02,C05,C08,C20 tier=quick unwind=11
-dec!(dec_2_1, 2, 1);
-//@ props=C01,C02,C05,C08,C20 tier=quick unwind=11
-dec!(dec_2_2, 2, 2);
-//@ props=C01,C02,C05,C08,C20 tier=quick unwind=12
-dec!(dec_2_3, 2, 3);
-//@ props=C01,C02,C05,C08,C20 tier=thorough unwind=13
-dec!(dec_3_0, 3, 0);
-//@ props=C01,C02,C05,C08,C20 tier=quick unwind=13
-dec!(dec_3_3, 3, 3);
-//@ props=C01,C02,C05,C08,C20 tier=quick unwind=13
-dec!(dec_3_4, 3, 4);
-//@ props=C01,C02,C05,C08,C20 tier=quick unwind=14
-dec!(dec_3_5, 3, 5);
-//@ props=C01,C02,C05,C08,C20 tier=thorough unwind=13
-dec!(dec_4_0, 4, 0);
-//@ props=C01,C02,C05,C08,C20 tier=quick unwind=13
-dec!(dec_4_3, 4, 3);
-//@ props=C01,C02,C05,C08,C20 tier=quick unwind=13
-dec!(dec_4_4, 4, 4);
-//@ props=C01,C02,C05,C08,C20 tier=quick unwind=14
-dec!(dec_4_5, 4, 5);
-//@ props=C01,C02,C05,C08,C20 tier=thorough unwind=17
-dec!(dec_5_0, 5, 0);
-//@ props=C01,C02,C05,C08,C20 tier=quick unwind=17
-dec!(dec_5_7, 5, 7);
-//@ props=C01,C02,C05,C08,C20 tier=quick unwind=17
-dec!(dec_5_8, 5, 8);
-//@ props=C01,C02,C05,C08,C20 tier=quick unwind=18
-dec!(dec_5_9, 5, 9);
-//@ props=C01,C02,C05,C08,C20 tier=thorough unwind=11
-dec!(dec_6_0, 6, 0);
-//@ props=C01,C02,C05,C08,C20 tier=quick unwind=11
-dec!(dec_6_1, 6, 1);
-//@ props=C01,C02,C05,C08,C20 tier=quick unwind=11
-dec!(dec_6_2, 6, 2);
-//@ props=C01,C02,C05,C08,C20 tier=quick unwind=12
-dec!(dec_6_3, 6, 3);
-//@ props=C01,C02,C05,C08,C20 tier=quick unwind=9
-dec!(dec_7_0, 7, 0);
-//@ props=C01,C02,C05,C08,C20 tier=quick unwind=10
-dec!(dec_7_1, 7, 1);
-//@ props=C01,C02,C05,C08,C20 tier=quick unwind=12
-dec!(dec_7_3, 7, 3);
-//@ props=C01,C02,C05,C08,C20 tier=thorough unwind=16
-dec!(dec_7_7, 7, 7);
-//@ props=C01,C02,C05,C08,C20 tier=quick unwind=9 stubs=utf8
-dec!(dec_8_0, 8, 0);
-//@ props=C01,C02,C05,C08,C20 tier=quick unwind=10 stubs=utf8
-dec!(dec_8_1, 8, 1);
-//@ props=C01,C02,C05,C08,C20 tier=quick unwind=11 stubs=utf8
-dec!(dec_8_2, 8, 2);
-//@ props=C01,C02,C05,C08,C20 tier=quick unwind=12 stubs=utf8
-dec!(dec_8_3, 8, 3);
-//@ props=C01,C02,C05,C08,C20 tier=quick unwind=13 stubs=utf8
-dec!(dec_8_4, 8, 4);
-//@ props=C01,C02,C05,C08,C20 tier=thorough unwind=14 stubs=utf8
-dec!(dec_8_5, 8, 5);
-//@ props=C01,C02,C05,C08,C20 tier=thorough unwind=15 stubs=utf8
-dec!(dec_8_6, 8, 6);
-//@ props=C01,C02,C05,C08,C20 tier=thorough unwind=11
-dec!(dec_9_0, 9, 0);
-//@ props=C01,C02,C05,C08,C20 tier=quick unwind=11
-dec!(dec_9_1, 9, 1);
-//@ props=C01,C02,C05,C08,C20 tier=quick unwind=11
-dec!(dec_9_2, 9, 2);
-//@ props=C01,C02,C05,C08,C20 tier=quick unwind=12
-dec!(dec_9_3, 9, 3);
-//@ props=C01,C02,C05,C08,C20 tier=thorough unwind=11
-dec!(dec_10_0, 10, 0);
-//@ props=C01,C02,C05,C08,C20 tier=quick unwind=11
-dec!(dec_10_1, 10, 1);
-//@ props=C01,C02,C05,C08,C20 tier=quick unwind=11
-dec!(dec_10_2, 10, 2);
-//@ props=C01,C02,C05,C08,C20 tier=quick unwind=12
-dec!(dec_10_3, 10, 3);
-//@ props=C01,C02,C05,C08,C20 tier=quick unwind=9
-dec!(dec_11_0, 11, 0);
-//@ props=C01,C02,C05,C08,C20 tier=quick unwind=10
-dec!(dec_11_1, 11, 1);
-//@ props=C01,C02,C05,C08,C20 tier=quick unwind=12
-dec!(dec_11_3, 11, 3);
-//@ props=C01,C02,C05,C08,C20 tier=thorough unwind=16
-dec!(dec_11_7, 11, 7);
-//@ props=C01,C02,C05,C08,C20 tier=quick unwind=9 stubs=utf8
-dec!(dec_12_0, 12, 0);
-//@ props=C01,C02,C05,C08,C20 tier=quick unwind=11 stubs=utf8
-dec!(dec_12_2, 12, 2);
-//@ props=C01,C02,C05,C08,C20 tier=quick unwind=12 stubs=utf8
-dec!(dec_12_3, 12, 3);
-//@ props=C01,C02,C05,C08,C20 tier=quick unwind=13 stubs=utf8
-dec!(dec_12_4, 12, 4);
-//@ props=C01,C02,C05,C08,C20 tier=quick unwind=15 stubs=utf8
-dec!(dec_12_6, 12, 6);
-//@ props=C01,C02,C05,C08,C20 tier=thorough unwind=16 stubs=utf8
-dec!(dec_12_7, 12, 7);
-//@ props=C01,C02,C05,C08,C20 tier=thorough unwind=25
-dec!(dec_13_0, 13, 0);
-//@ props=C01,C02,C05,C08,C20 tier=quick unwind=25
-dec!(dec_13_15, 13, 15);
-//@ props=C01,C02,C05,C08,C20 tier=quick unwind=25
-dec!(dec_13_16, 13, 16);
-//@ props=C01,C02,C05,C08,C20 tier=quick unwind=26
-dec!(dec_13_17, 13, 17);
-//@ props=C01,C02,C05,C08,C20 tier=thorough unwind=11
-dec!(dec_14_0, 14, 0);
-//@ props=C01,C02,C05,C08,C20 tier=quick unwind=11
-dec!(dec_14_1, 14, 1);
-//@ props=C01,C02,C05,C08,C20 tier=quick unwind=11
-dec!(dec_14_2, 14, 2);
-//@ props=C01,C02,C05,C08,C20 tier=quick unwind=12
-dec!(dec_14_3, 14, 3);
-//@ props=C01,C02,C05,C08,C20 tier=thorough unwind=13
-dec!(dec_15_0, 15, 0);
-//@ props=C01,C02,C05,C08,C20 tier=quick unwind=13
-dec!(dec_15_3, 15, 3);
-//@ props=C01,C02,C05,C08,C20 tier=quick unwind=13
-dec!(dec_15_4, 15, 4);
-//@ props=C01,C02,C05,C08,C20 tier=quick unwind=14
-dec!(dec_15_5, 15, 5);
-//@ props=C01,C02,C05,C08,C20 tier=thorough unwind=13
-dec!(dec_16_0, 16, 0);
-//@ props=C01,C02,C05,C08,C20 tier=quick unwind=13
-dec!(dec_16_3, 16, 3);
-//@ props=C01,C02,C05,C08,C20 tier=quick unwind=13
-dec!(dec_16_4, 16, 4);
-//@ props=C01,C02,C05,C08,C20 tier=quick unwind=14
-dec!(dec_16_5, 16, 5);
-//@ props=C01,C02,C05,C08,C20 tier=thorough unwind=13
-dec!(dec_17_0, 17, 0);
-//@ props=C01,C02,C05,C08,C20 tier=quick unwind=13
-dec!(dec_17_3, 17, 3);
-//@ props=C01,C02,C05,C08,C20 tier=quick unwind=13
-dec!(dec_17_4, 17, 4);
-//@ props=C01,C02,C05,C08,C20 tier=quick unwind=14
-dec!(dec_17_5, 17, 5);
-//@ props=C01,C02,C05,C08,C20 tier=thorough unwind=13
-dec!(dec_18_0, 18, 0);
-//@ props=C01,C02,C05,C08,C20 tier=quick unwind=13
-dec!(dec_18_3, 18, 3);
-//@ props=C01,C02,C05,C08,C20 tier=quick unwind=13
-dec!(dec_18_4, 18, 4);
-//@ props=C01,C02,C05,C08,C20 tier=quick unwind=14
-dec!(dec_18_5, 18, 5);
-//@ props=C01,C02,C05,C08,C20 tier=thorough unwind=13
-dec!(dec_19_0, 19, 0);
-//@ props=C01,C02,C05,C08,C20 tier=quick unwind=13
-dec!(dec_19_3, 19, 3);
-//@ props=C01,C02,C05,C08,C20 tier=quick unwind=13
-dec!(dec_19_4, 19, 4);
-//@ props=C01,C02,C05,C08,C20 tier=quick unwind=14
-dec!(dec_19_5, 19, 5);
-//@ props=C01,C02,C05,C08,C20 tier=quick unwind=9
-dec!(dec_20_0, 20, 0);
-//@ props=C01,C02,C05,C08,C20 tier=quick unwind=11
-dec!(dec_20_2, 20, 2);
-//@ props=C01,C02,C05,C08,C20 tier=quick unwind=9 stubs=utf8
-dec!(dec_21_0, 21, 0);
-//@ props=C01,C02,C05,C08,C20 tier=quick unwind=10 stubs=utf8
-dec!(dec_21_1, 21, 1);
-//@ props=C01,C02,C05,C08,C20 tier=quick unwind=11 stubs=utf8
-dec!(dec_21_2, 21, 2);
-//@ props=C01,C02,C05,C08,C20 tier=quick unwind=12 stubs=utf8
-dec!(dec_21_3, 21, 3);
-//@ props=C01,C02,C05,C08,C20 tier=quick unwind=13 stubs=utf8
-dec!(dec_21_4, 21, 4);
-//@ props=C01,C02,C05,C08,C20 tier=thorough unwind=14 stubs=utf8
-dec!(dec_21_5, 21, 5);
-//@ props=C01,C02,C05,C08,C20 tier=thorough unwind=15 stubs=utf8
-dec!(dec_21_6, 21, 6);
-//@ props=C01,C02,C05,C08,C20 tier=quick unwind=9 stubs=utf8
-dec!(dec_22_0, 22, 0);
-//@ props=C01,C02,C05,C08,C20 tier=quick unwind=10 stubs=utf8
-dec!(dec_22_1, 22, 1);
-//@ props=C01,C02,C05,C08,C20 tier=quick unwind=11 stubs=utf8
-dec!(dec_22_2, 22, 2);
-//@ props=C01,C02,C05,C08,C20 tier=quick unwind=12 stubs=utf8
-dec!(dec_22_3, 22, 3);
-//@ props=C01,C02,C05,C08,C20 tier=quick unwind=13 stubs=utf8
-dec!(dec_22_4, 22, 4);
-//@ props=C01,C02,C05,C08,C20 tier=thorough unwind=14 stubs=utf8
-dec!(dec_22_5, 22, 5);
-//@ props=C01,C02,C05,C08,C20 tier=thorough unwind=15 stubs=utf8
-dec!(dec_22_6, 22, 6);
-//@ props=C01,C02,C05,C08,C20 tier=quick unwind=9 stubs=utf8
-dec!(dec_23_0, 23, 0);
-//@ props=C01,C02,C05,C08,C20 tier=quick unwind=10 stubs=utf8
-dec!(dec_23_1, 23, 1);
-//@ props=C01,C02,C05,C08,C20 tier=quick unwind=11 stubs=utf8
-dec!(dec_23_2, 23, 2);
-//@ props=C01,C02,C05,C08,C20 tier=quick unwind=12 stubs=utf8
-dec!(dec_23_3, 23, 3);
-//@ props=C01,C02,C05,C08,C20 tier=quick unwind=13 stubs=utf8
-dec!(dec_23_4, 23, 4);
-//@ props=C01,C02,C05,C08,C20 tier=thorough unwind=14 stubs=utf8
-dec!(dec_23_5, 23, 5);
-//@ props=C01,C02,C05,C08,C20 tier=thorough unwind=15 stubs=utf8
-dec!(dec_23_6, 23, 6);
-//@ props=C01,C02,C05,C08,C20 tier=thorough unwind=13
-dec!(dec_24_0, 24, 0);
-//@ props=C01,C02,C05,C08,C20 tier=quick unwind=13
-dec!(dec_24_3, 24, 3);
-//@ props=C01,C02,C05,C08,C20 tier=quick unwind=13
-dec!(dec_24_4, 24, 4);
-//@ props=C01,C02,C05,C08,C20 tier=quick unwind=14
-dec!(dec_24_5, 24, 5);
-//@ props=C01,C02,C05,C08,C20 tier=thorough unwind=13
-dec!(dec_25_0, 25, 0);
-//@ props=C01,C02,C05,C08,C20 tier=quick unwind=13
-dec!(dec_25_3, 25, 3);
-//@ props=C01,C02,C05,C08,C20 tier=quick unwind=13
-dec!(dec_25_4, 25, 4);
-//@ props=C01,C02,C05,C08,C20 tier=quick unwind=14
-dec!(dec_25_5, 25, 5);
-//@ props=C01,C02,C05,C08,C20 tier=quick unwind=9
-dec!(dec_26_0, 26, 0);
-//@ props=C01,C02,C05,C08,C20 tier=quick unwind=10
-dec!(dec_26_1, 26, 1);
-//@ props=C01,C02,C05,C08,C20 tier=quick unwind=12
-dec!(dec_26_3, 26, 3);
-//@ props=C01,C02,C05,C08,C20 tier=thorough unwind=16
-dec!(dec_26_7, 26, 7);
-//@ props=C01,C02,C05,C08,C20 tier=quick unwind=9
-dec!(dec_27_0, 27, 0);
-//@ props=C01,C02,C05,C08,C20 tier=quick unwind=10
-dec!(dec_27_1, 27, 1);
-//@ props=C01,C02,C05,C08,C20 tier=quick unwind=12
-dec!(dec_27_3, 27, 3);
-//@ props=C01,C02,C05,C08,C20 tier=thorough unwind=16
-dec!(dec_27_7, 27, 7);
-//@ props=C01,C02,C05,C08,C20 tier=quick unwind=9
-dec!(dec_28_0, 28, 0);
-//@ props=C01,C02,C05,C08,C20 tier=quick unwind=10
-dec!(dec_28_1, 28, 1);
-//@ props=C01,C02,C05,C08,C20 tier=quick unwind=12
-dec!(dec_28_3, 28, 3);
-//@ props=C01,C02,C05,C08,C20 tier=thorough unwind=16
-dec!(dec_28_7, 28, 7);
-//@ props=C01,C02,C05,C08,C20 tier=thorough unwind=11
-dec!(dec_29_0, 29, 0);
-//@ props=C01,C02,C05,C08,C20 tier=quick unwind=11
-dec!(dec_29_1, 29, 1);
-//@ props=C01,C02,C05,C08,C20 tier=quick unwind=11
-dec!(dec_29_2, 29, 2);
-//@ props=C01,C02,C05,C08,C20 tier=quick unwind=12
-dec!(dec_29_3, 29, 3);
-//@ props=C01,C02,C05,C08,C20 tier=quick unwind=9
-dec!(dec_30_0, 30, 0);
-//@ props=C01,C02,C05,C08,C20 tier=quick unwind=10
-dec!(dec_30_1, 30, 1);
-//@ props=C01,C02,C05,C08,C20 tier=quick unwind=12
-dec!(dec_30_3, 30, 3);
-//@ props=C01,C02,C05,C08,C20 tier=thorough unwind=16
-dec!(dec_30_7, 30, 7);
-//@ props=C01,C02,C05,C08,C20 tier=quick unwind=9
-dec!(dec_31_0, 31, 0);
-//@ props=C01,C02,C05,C08,C20 tier=quick unwind=10
-dec!(dec_31_1, 31, 1);
-//@ props=C01,C02,C05,C08,C20 tier=quick unwind=12
-dec!(dec_31_3, 31, 3);
-//@ props=C01,C02,C05,C08,C20 tier=thorough unwind=16
-dec!(dec_31_7, 31, 7);
-//@ props=C01,C02,C05,C08,C20 tier=thorough unwind=11
-dec!(dec_32_0, 32, 0);
-//@ props=C01,C02,C05,C08,C20 tier=quick unwind=11
-dec!(dec_32_1, 32, 1);
-//@ props=C01,C02,C05,C08,C20 tier=quick unwind=11
-dec!(dec_32_2, 32, 2);
-//@ props=C01,C02,C05,C08,C20 tier=quick unwind=12
-dec!(dec_32_3, 32, 3);
-//@ props=C01,C02,C05,C08,C20 tier=quick unwind=9
-dec!(dec_33_0, 33, 0);
-//@ props=C01,C02,C05,C08,C20 tier=quick unwind=10
-dec!(dec_33_1, 33, 1);
-//@ props=C01,C02,C05,C08,C20 tier=quick unwind=12
-dec!(dec_33_3, 33, 3);
-//@ props=C01,C02,C05,C08,C20 tier=thorough unwind=16
-dec!(dec_33_7, 33, 7);
-//@ props=C01,C02,C05,C08,C20 tier=thorough unwind=35
-dec!(dec_34_0, 34, 0);
-//@ props=C01,C02,C05,C08,C20 tier=quick unwind=35
-dec!(dec_34_25, 34, 25);
-//@ props=C01,C02,C05,C08,C20 tier=quick unwind=35
-dec!(dec_34_26, 34, 26);
-//@ props=C01,C02,C05,C08,C20 tier=quick unwind=36
-dec!(dec_34_27, 34, 27);
-//@ props=C01,C02,C05,C08,C20 tier=thorough unwind=19
-dec!(dec_35_0, 35, 0);
-//@ props=C01,C02,C05,C08,C20 tier=quick unwind=19
-dec!(dec_35_9, 35, 9);
-//@ props=C01,C02,C05,C08,C20 tier=quick unwind=19
-dec!(dec_35_10, 35, 10);
-//@ props=C01,C02,C05,C08,C20 tier=quick unwind=20
-dec!(dec_35_11, 35, 11);
-//@ props=C01,C02,C05,C08,C20 tier=thorough unwind=13
-dec!(dec_36_0, 36, 0);
-//@ props=C01,C02,C05,C08,C20 tier=quick unwind=13
-dec!(dec_36_3, 36, 3);
-//@ props=C01,C02,C05,C08,C20 tier=quick unwind=13
-dec!(dec_36_4, 36, 4);
-//@ props=C01,C02,C05,C08,C20 tier=quick unwind=14
-dec!(dec_36_5, 36, 5);
-//@ props=C01,C02,C05,C08,C20 tier=quick unwind=9
-dec!(dec_37_0, 37, 0);
-//@ props=C01,C02,C05,C08,C20 tier=quick unwind=10
-dec!(dec_37_1, 37, 1);
-//@ props=C01,C02,C05,C08,C20 tier=quick unwind=12
-dec!(dec_37_3, 37, 3);
-//@ props=C01,C02,C05,C08,C20 tier=thorough unwind=16
-dec!(dec_37_7, 37, 7);
-//@ props=C01,C02,C05,C08,C20 tier=thorough unwind=13
-dec!(dec_38_0, 38, 0);
-//@ props=C01,C02,C05,C08,C20 tier=quick unwind=13
-dec!(dec_38_3, 38, 3);
-//@ props=C01,C02,C05,C08,C20 tier=quick unwind=13
-dec!(dec_38_4, 38, 4);
-//@ props=C01,C02,C05,C08,C20 tier=quick unwind=14
-dec!(dec_38_5, 38, 5);
-//@ props=C01,C02,C05,C08,C20 tier=quick unwind=9
-dec!(dec_39_0, 39, 0);
-//@ props=C01,C02,C05,C08,C20 tier=quick unwind=10
-dec!(dec_39_1, 39, 1);
-//@ props=C01,C02,C05,C08,C20 tier=quick unwind=9
-dec!(dec_40_0, 40, 0);
-//@ props=C01,C02,C05,C08,C20 tier=quick unwind=11
-dec!(dec_40_2, 40, 2);
-//@ props=C01,C02,C05,C08,C20 tier=quick unwind=9
-dec!(dec_65535_0, 65535, 0);
-//@ props=C01,C02,C05,C08,C20 tier=quick unwind=11
-dec!(dec_65535_2, 65535, 2);
-//@ props=C01,C05,C06,C07,C10,C20 tier=quick unwind=11
+//@ props=C02 tier=quick unwind=11
+decm!(decm_0_2, 0, 2);
+//@ props=C10,C06,C07 tier=thorough unwind=11
 renc!(renc_0_2, 0, 2);
-//@ props=C01,C05,C06,C07,C10,C20 tier=quick unwind=12
+//@ props=C01,C05 tier=thorough unwind=12
+dec!(dec_0_3, 0, 3);
+//@ props=C02 tier=thorough unwind=12
+decm!(decm_0_3, 0, 3);
+//@ props=C10,C06,C07 tier=quick unwind=12
 renc!(renc_0_3, 0, 3);
-//@ props=C01,C05,C06,C07,C10,C20 tier=quick unwind=11 stubs=utf8
+//@ props=C01,C05,C20 tier=thorough unwind=9 stubs=utf8
+dec!(dec_1_0, 1, 0);
+//@ props=C02 tier=thorough unwind=9 stubs=utf8
+decm!(decm_1_0, 1, 0);
+//@ props=C01,C05,C20 tier=quick unwind=10 stubs=utf8
+dec!(dec_1_1, 1, 1);
+//@ props=C02 tier=thorough unwind=10 stubs=utf8
+decm!(decm_1_1, 1, 1);
+//@ props=C01,C05,C20 tier=quick unwind=11 stubs=utf8
+dec!(dec_1_2, 1, 2);
+//@ props=C02 tier=quick unwind=11 stubs=utf8
+decm!(decm_1_2, 1, 2);
+//@ props=C10,C06,C07 tier=thorough unwind=11 stubs=utf8 cap=3600
 renc!(renc_1_2, 1, 2);
-//@ props=C01,C05,C06,C07,C10,C20 tier=quick unwind=12 stubs=utf8
+//@ props=C01,C05 tier=thorough unwind=12 stubs=utf8
+dec!(dec_1_3, 1, 3);
+//@ props=C02 tier=thorough unwind=12 stubs=utf8
+decm!(decm_1_3, 1, 3);
+//@ props=C10,C06,C07 tier=thorough unwind=12 stubs=utf8 cap=3600
 renc!(renc_1_3, 1, 3);
-//@ props=C01,C05,C06,C07,C10,C20 tier=quick unwind=13 stubs=utf8
+//@ props=C01,C05,C20 tier=quick unwind=13 stubs=utf8
+dec!(dec_1_4, 1, 4);
+//@ props=C02 tier=quick unwind=13 stubs=utf8
+decm!(decm_1_4, 1, 4);
+//@ props=C10,C06,C07 tier=thorough unwind=13 stubs=utf8 cap=3600
 renc!(renc_1_4, 1, 4);
-//@ props=C01,C05,C06,C07,C10,C20 tier=quick unwind=14 stubs=utf8
+//@ props=C01,C05,C20 tier=thorough unwind=14 stubs=utf8
+dec!(dec_1_5, 1, 5);
+//@ props=C02 tier=thorough unwind=14 stubs=utf8
+decm!(decm_1_5, 1, 5);
+//@ props=C10,C06,C07 tier=thorough unwind=14 stubs=utf8 cap=3600
 renc!(renc_1_5, 1, 5);
-//@ props=C01,C05,C06,C07,C10,C20 tier=quick unwind=16 stubs=utf8
+//@ props=C01,C05,C20 tier=quick unwind=16 stubs=utf8
+dec!(dec_1_7, 1, 7);
+//@ props=C02 tier=quick unwind=16 stubs=utf8
+decm!(decm_1_7, 1, 7);
+//@ props=C10,C06,C07 tier=thorough unwind=16 stubs=utf8 cap=3600
 renc!(renc_1_7, 1, 7);
-//@ props=C01,C05,C06,C07,C10,C20 tier=thorough unwind=17 stubs=utf8
+//@ props=C01,C05,C20 tier=thorough unwind=17 stubs=utf8
+dec!(dec_1_8, 1, 8);
+//@ props=C02 tier=thorough unwind=17 stubs=utf8
+decm!(decm_1_8, 1, 8);
+//@ props=C10,C06,C07 tier=thorough unwind=17 stubs=utf8 cap=3600
 renc!(renc_1_8, 1, 8);
-//@ props=C01,C05,C06,C07,C10,C20 tier=quick unwind=11
+//@ props=C01,C05,C20 tier=thorough unwind=11
+dec!(dec_2_0, 2, 0);
+//@ props=C02 tier=thorough unwind=11
+decm!(decm_2_0, 2, 0);
+//@ props=C01,C05,C20 tier=quick unwind=11
+dec!(dec_2_1, 2, 1);
+//@ props=C02 tier=thorough unwind=11
+decm!(decm_2_1, 2, 1);
+//@ props=C01,C05,C20 tier=quick unwind=11
+dec!(dec_2_2, 2, 2);
+//@ props=C02 tier=quick unwind=11
+decm!(decm_2_2, 2, 2);
+//@ props=C10,C06,C07 tier=thorough unwind=11
 renc!(renc_2_2, 2, 2);
-//@ props=C01,C05,C06,C07,C10,C20 tier=quick unwind=12
+//@ props=C01,C05 tier=thorough unwind=12
+dec!(dec_2_3, 2, 3);
+//@ props=C02 tier=thorough unwind=12
+decm!(decm_2_3, 2, 3);
+//@ props=C10,C06,C07 tier=quick unwind=12
 renc!(renc_2_3, 2, 3);
-//@ props=C01,C05,C06,C07,C10,C20 tier=quick unwind=13
+//@ props=C01,C05,C20 tier=thorough unwind=13
+dec!(dec_3_0, 3, 0);
+//@ props=C02 tier=thorough unwind=13
+decm!(decm_3_0, 3, 0);
+//@ props=C01,C05,C20 tier=quick unwind=13
+dec!(dec_3_3, 3, 3);
+//@ props=C02 tier=thorough unwind=13
+decm!(decm_3_3, 3, 3);
+//@ props=C01,C05,C20 tier=quick unwind=13
+dec!(dec_3_4, 3, 4);
+//@ props=C02 tier=quick unwind=13
+decm!(decm_3_4, 3, 4);
+//@ props=C10,C06,C07 tier=thorough unwind=13
 renc!(renc_3_4, 3, 4);
-//@ props=C01,C05,C06,C07,C10,C20 tier=quick unwind=14
+//@ props=C01,C05 tier=thorough unwind=14
+dec!(dec_3_5, 3, 5);
+//@ props=C02 tier=thorough unwind=14
+decm!(decm_3_5, 3, 5);
+//@ props=C10,C06,C07 tier=quick unwind=14
 renc!(renc_3_5, 3, 5);
-//@ props=C01,C05,C06,C07,C10,C20 tier=quick unwind=13
+//@ props=C01,C05,C20 tier=thorough unwind=13
+dec!(dec_4_0, 4, 0);
+//@ props=C02 tier=thorough unwind=13
+decm!(decm_4_0, 4, 0);
+//@ props=C01,C05,C20 tier=quick unwind=13
+dec!(dec_4_3, 4, 3);
+//@ props=C02 tier=thorough unwind=13
+decm!(decm_4_3, 4, 3);
+//@ props=C01,C05,C20 tier=quick unwind=13
+dec!(dec_4_4, 4, 4);
+//@ props=C02 tier=quick unwind=13
+decm!(decm_4_4, 4, 4);
+//@ props=C10,C06,C07 tier=thorough unwind=13
 renc!(renc_4_4, 4, 4);
-//@ props=C01,C05,C06,C07,C10,C20 tier=quick unwind=14
+//@ props=C01,C05 tier=thorough unwind=14
+dec!(dec_4_5, 4, 5);
+//@ props=C02 tier=thorough unwind=14
+decm!(decm_4_5, 4, 5);
+//@ props=C10,C06,C07 tier=quick unwind=14
 renc!(renc_4_5, 4, 5);
-//@ props=C01,C05,C06,C07,C10,C20 tier=quick unwind=17
+//@ props=C01,C05,C20 tier=thorough unwind=17
+dec!(dec_5_0, 5, 0);
+//@ props=C02 tier=thorough unwind=17
+decm!(decm_5_0, 5, 0);
+//@ props=C01,C05,C20 tier=quick unwind=17
+dec!(dec_5_7, 5, 7);
+//@ props=C02 tier=thorough unwind=17
+decm!(decm_5_7, 5, 7);
+//@ props=C01,C05,C20 tier=quick unwind=17
+dec!(dec_5_8, 5, 8);
+//@ props=C02 tier=quick unwind=17
+decm!(decm_5_8, 5, 8);
+//@ props=C10,C06,C07 tier=thorough unwind=17
 renc!(renc_5_8, 5, 8);
-//@ props=C01,C05,C06,C07,C10,C20 tier=quick unwind=18
+//@ props=C01,C05 tier=thorough unwind=18
+dec!(dec_5_9, 5, 9);
+//@ props=C02 tier=thorough unwind=18
+decm!(decm_5_9, 5, 9);
+//@ props=C10,C06,C07 tier=quick unwind=18
 renc!(renc_5_9, 5, 9);
-//@ props=C01,C05,C06,C07,C10,C20 tier=quick unwind=11
+//@ props=C01,C05,C20 tier=thorough unwind=11
+dec!(dec_6_0, 6, 0);
+//@ props=C02 tier=thorough unwind=11
+decm!(decm_6_0, 6, 0);
+//@ props=C01,C05,C20 tier=quick unwind=11
+dec!(dec_6_1, 6, 1);
+//@ props=C02 tier=thorough unwind=11
+decm!(decm_6_1, 6, 1);
+//@ props=C01,C05,C20 tier=quick unwind=11
+dec!(dec_6_2, 6, 2);
+//@ props=C02 tier=quick unwind=11
+decm!(decm_6_2, 6, 2);
+//@ props=C10,C06,C07 tier=thorough unwind=11
 renc!(renc_6_2, 6, 2);
-//@ props=C01,C05,C06,C07,C10,C20 tier=quick unwind=12
+//@ props=C01,C05 tier=thorough unwind=12
+dec!(dec_6_3, 6, 3);
+//@ props=C02 tier=thorough unwind=12
+decm!(decm_6_3, 6, 3);
+//@ props=C10,C06,C07 tier=quick unwind=12
 renc!(renc_6_3, 6, 3);
-//@ props=C01,C05,C06,C07,C10,C20 tier=quick unwind=10
+//@ props=C01,C05,C20 tier=quick unwind=9
+dec!(dec_7_0, 7, 0);
+//@ props=C02 tier=thorough unwind=9
+decm!(decm_7_0, 7, 0);
+//@ props=C01,C05,C20 tier=thorough unwind=10
+dec!(dec_7_1, 7, 1);
+//@ props=C02 tier=thorough unwind=10
+decm!(decm_7_1, 7, 1);
+//@ props=C10,C06,C07 tier=thorough unwind=10
 renc!(renc_7_1, 7, 1);
-//@ props=C01,C05,C06,C07,C10,C20 tier=quick unwind=12
+//@ props=C01,C05,C20 tier=quick unwind=12
+dec!(dec_7_3, 7, 3);
+//@ props=C02 tier=quick unwind=12
+decm!(decm_7_3, 7, 3);
+//@ props=C10,C06,C07 tier=quick unwind=12
 renc!(renc_7_3, 7, 3);
-//@ props=C01,C05,C06,C07,C10,C20 tier=thorough unwind=16
+//@ props=C01,C05,C20 tier=thorough unwind=16
+dec!(dec_7_7, 7, 7);
+//@ props=C02 tier=thorough unwind=16
+decm!(decm_7_7, 7, 7);
+//@ props=C10,C06,C07 tier=thorough unwind=16
 renc!(renc_7_7, 7, 7);
-//@ props=C01,C05,C06,C07,C10,C20 tier=quick unwind=10 stubs=utf8
+//@ props=C01,C05,C20 tier=quick unwind=9 stubs=utf8
+dec!(dec_8_0, 8, 0);
+//@ props=C02 tier=thorough unwind=9 stubs=utf8
+decm!(decm_8_0, 8, 0);
+//@ props=C01,C05,C20 tier=thorough unwind=10 stubs=utf8
+dec!(dec_8_1, 8, 1);
+//@ props=C02 tier=thorough unwind=10 stubs=utf8
+decm!(decm_8_1, 8, 1);
+//@ props=C10,C06,C07 tier=thorough unwind=10 stubs=utf8
 renc!(renc_8_1, 8, 1);
-//@ props=C01,C05,C06,C07,C10,C20 tier=quick unwind=11 stubs=utf8
+//@ props=C01,C05,C20 tier=thorough unwind=11 stubs=utf8
+dec!(dec_8_2, 8, 2);
+//@ props=C02 tier=thorough unwind=11 stubs=utf8
+decm!(decm_8_2, 8, 2);
+//@ props=C10,C06,C07 tier=thorough unwind=11 stubs=utf8
 renc!(renc_8_2, 8, 2);
-//@ props=C01,C05,C06,C07,C10,C20 tier=quick unwind=12 stubs=utf8
+//@ props=C01,C05,C20 tier=quick unwind=12 stubs=utf8
+dec!(dec_8_3, 8, 3);
+//@ props=C02 tier=quick unwind=12 stubs=utf8
+decm!(decm_8_3, 8, 3);
+//@ props=C10,C06,C07 tier=quick unwind=12 stubs=utf8
 renc!(renc_8_3, 8, 3);
-//@ props=C01,C05,C06,C07,C10,C20 tier=quick unwind=13 stubs=utf8
+//@ props=C01,C05,C20 tier=thorough unwind=13 stubs=utf8
+dec!(dec_8_4, 8, 4);
+//@ props=C02 tier=thorough unwind=13 stubs=utf8
+decm!(decm_8_4, 8, 4);
+//@ props=C10,C06,C07 tier=thorough unwind=13 stubs=utf8
 renc!(renc_8_4, 8, 4);
-//@ props=C01,C05,C06,C07,C10,C20 tier=thorough unwind=14 stubs=utf8
+//@ props=C01,C05,C20 tier=thorough unwind=14 stubs=utf8
+dec!(dec_8_5, 8, 5);
+//@ props=C02 tier=thorough unwind=14 stubs=utf8
+decm!(decm_8_5, 8, 5);
+//@ props=C10,C06,C07 tier=thorough unwind=14 stubs=utf8
 renc!(renc_8_5, 8, 5);
-//@ props=C01,C05,C06,C07,C10,C20 tier=thorough unwind=15 stubs=utf8
+//@ props=C01,C05,C20 tier=thorough unwind=15 stubs=utf8
+dec!(dec_8_6, 8, 6);
+//@ props=C02 tier=thorough unwind=15 stubs=utf8
+decm!(decm_8_6, 8, 6);
+//@ props=C10,C06,C07 tier=thorough unwind=15 stubs=utf8
 renc!(renc_8_6, 8, 6);
-//@ props=C01,C05,C06,C07,C10,C20 tier=quick unwind=11
+//@ props=C01,C05,C20 tier=thorough unwind=11
+dec!(dec_9_0, 9, 0);
+//@ props=C02 tier=thorough unwind=11
+decm!(decm_9_0, 9, 0);
+//@ props=C01,C05,C20 tier=quick unwind=11
+dec!(dec_9_1, 9, 1);
+//@ props=C02 tier=thorough unwind=11
+decm!(decm_9_1, 9, 1);
+//@ props=C01,C05,C20 tier=quick unwind=11
+dec!(dec_9_2, 9, 2);
+//@ props=C02 tier=quick unwind=11
+decm!(decm_9_2, 9, 2);
+//@ props=C10,C06,C07 tier=thorough unwind=11
 renc!(renc_9_2, 9, 2);
-//@ props=C01,C05,C06,C07,C10,C20 tier=quick unwind=12
+//@ props=C01,C05 tier=thorough unwind=12
+dec!(dec_9_3, 9, 3);
+//@ props=C02 tier=thorough unwind=12
+decm!(decm_9_3, 9, 3);
+//@ props=C10,C06,C07 tier=quick unwind=12
 renc!(renc_9_3, 9, 3);
-//@ props=C01,C05,C06,C07,C10,C20 tier=quick unwind=11
+//@ props=C01,C05,C20 tier=thorough unwind=11
+dec!(dec_10_0, 10, 0);
+//@ props=C02 tier=thorough unwind=11
+decm!(decm_10_0, 10, 0);
+//@ props=C01,C05,C20 tier=quick unwind=11
+dec!(dec_10_1, 10, 1);
+//@ props=C02 tier=thorough unwind=11
+decm!(decm_10_1, 10, 1);
+//@ props=C01,C05,C20 tier=quick unwind=11
+dec!(dec_10_2, 10, 2);
+//@ props=C02 tier=quick unwind=11
+decm!(decm_10_2, 10, 2);
+//@ props=C10,C06,C07 tier=thorough unwind=11
 renc!(renc_10_2, 10, 2);
-//@ props=C01,C05,C06,C07,C10,C20 tier=quick unwind=12
+//@ props=C01,C05 tier=thorough unwind=12
+dec!(dec_10_3, 10, 3);
+//@ props=C02 tier=thorough unwind=12
+decm!(decm_10_3, 10, 3);
+//@ props=C10,C06,C07 tier=quick unwind=12
 renc!(renc_10_3, 10, 3);
-//@ props=C01,C05,C06,C07,C10,C20 tier=quick unwind=10
+//@ props=C01,C05,C20 tier=quick unwind=9
+dec!(dec_11_0, 11, 0);
+//@ props=C02 tier=thorough unwind=9
+decm!(decm_11_0, 11, 0);
+//@ props=C01,C05,C20 tier=thorough unwind=10
+dec!(dec_11_1, 11, 1);
+//@ props=C02 tier=thorough unwind=10
+decm!(decm_11_1, 11, 1);
+//@ props=C10,C06,C07 tier=thorough unwind=10
 renc!(renc_11_1, 11, 1);
-//@ props=C01,C05,C06,C07,C10,C20 tier=quick unwind=12
+//@ props=C01,C05,C20 tier=quick unwind=12
+dec!(dec_11_3, 11, 3);
+//@ props=C02 tier=quick unwind=12
+decm!(decm_11_3, 11, 3);
+//@ props=C10,C06,C07 tier=quick unwind=12
 renc!(renc_11_3, 11, 3);
-//@ props=C01,C05,C06,C07,C10,C20 tier=thorough unwind=16
+//@ props=C01,C05,C20 tier=thorough unwind=16
+dec!(dec_11_7, 11, 7);
+//@ props=C02 tier=thorough unwind=16
+decm!(decm_11_7, 11, 7);
+//@ props=C10,C06,C07 tier=thorough unwind=16
 renc!(renc_11_7, 11, 7);
-//@ props=C01,C05,C06,C07,C10,C20 tier=quick unwind=12 stubs=utf8
+//@ props=C01,C05,C20 tier=thorough unwind=9 stubs=utf8
+dec!(dec_12_0, 12, 0);
+//@ props=C02 tier=thorough unwind=9 stubs=utf8
+decm!(decm_12_0, 12, 0);
+//@ props=C01,C05,C20 tier=quick unwind=11 stubs=utf8
+dec!(dec_12_2, 12, 2);
+//@ props=C02 tier=thorough unwind=11 stubs=utf8
+decm!(decm_12_2, 12, 2);
+//@ props=C01,C05,C20 tier=quick unwind=12 stubs=utf8
+dec!(dec_12_3, 12, 3);
+//@ props=C02 tier=quick unwind=12 stubs=utf8
+decm!(decm_12_3, 12, 3);
+//@ props=C10,C06,C07 tier=quick unwind=12 stubs=utf8
 renc!(renc_12_3, 12, 3);
-//@ props=C01,C05,C06,C07,C10,C20 tier=quick unwind=13 stubs=utf8
+//@ props=C01,C05,C20 tier=thorough unwind=13 stubs=utf8
+dec!(dec_12_4, 12, 4);
+//@ props=C02 tier=thorough unwind=13 stubs=utf8
+decm!(decm_12_4, 12, 4);
+//@ props=C10,C06,C07 tier=thorough unwind=13 stubs=utf8
 renc!(renc_12_4, 12, 4);
-//@ props=C01,C05,C06,C07,C10,C20 tier=quick unwind=15 stubs=utf8
+//@ props=C01,C05,C20 tier=quick unwind=15 stubs=utf8
+dec!(dec_12_6, 12, 6);
+//@ props=C02 tier=quick unwind=15 stubs=utf8
+decm!(decm_12_6, 12, 6);
+//@ props=C10,C06,C07 tier=quick unwind=15 stubs=utf8
 renc!(renc_12_6, 12, 6);
-//@ props=C01,C05,C06,C07,C10,C20 tier=thorough unwind=16 stubs=utf8
+//@ props=C01,C05,C20 tier=thorough unwind=16 stubs=utf8
+dec!(dec_12_7, 12, 7);
+//@ props=C02 tier=thorough unwind=16 stubs=utf8
+decm!(decm_12_7, 12, 7);
+//@ props=C10,C06,C07 tier=thorough unwind=16 stubs=utf8
 renc!(renc_12_7, 12, 7);
-//@ props=C01,C05,C06,C07,C10,C20 tier=quick unwind=25
+//@ props=C01,C05,C20 tier=thorough unwind=25
+dec!(dec_13_0, 13, 0);
+//@ props=C02 tier=thorough unwind=25
+decm!(decm_13_0, 13, 0);
+//@ props=C01,C05,C20 tier=quick unwind=25
+dec!(dec_13_15, 13, 15);
+//@ props=C02 tier=thorough unwind=25
+decm!(decm_13_15, 13, 15);
+//@ props=C01,C05,C20 tier=quick unwind=25
+dec!(dec_13_16, 13, 16);
+//@ props=C02 tier=quick unwind=25
+decm!(decm_13_16, 13, 16);
+//@ props=C10,C06,C07 tier=thorough unwind=25
 renc!(renc_13_16, 13, 16);
-//@ props=C01,C05,C06,C07,C10,C20 tier=quick unwind=26
+//@ props=C01,C05 tier=thorough unwind=26
+dec!(dec_13_17, 13, 17);
+//@ props=C02 tier=thorough unwind=26
+decm!(decm_13_17, 13, 17);
+//@ props=C10,C06,C07 tier=quick unwind=26
 renc!(renc_13_17, 13, 17);
-//@ props=C01,C05,C06,C07,C10,C20 tier=quick unwind=11
+//@ props=C01,C05,C20 tier=thorough unwind=11
+dec!(dec_14_0, 14, 0);
+//@ props=C02 tier=thorough unwind=11
+decm!(decm_14_0, 14, 0);
+//@ props=C01,C05,C20 tier=quick unwind=11
+dec!(dec_14_1, 14, 1);
+//@ props=C02 tier=thorough unwind=11
+decm!(decm_14_1, 14, 1);
+//@ props=C01,C05,C20 tier=quick unwind=11
+dec!(dec_14_2, 14, 2);
+//@ props=C02 tier=quick unwind=11
+decm!(decm_14_2, 14, 2);
+//@ props=C10,C06,C07 tier=thorough unwind=11
 renc!(renc_14_2, 14, 2);
-//@ props=C01,C05,C06,C07,C10,C20 tier=quick unwind=12
+//@ props=C01,C05 tier=thorough unwind=12
+dec!(dec_14_3, 14, 3);
+//@ props=C02 tier=thorough unwind=12
+decm!(decm_14_3, 14, 3);
+//@ props=C10,C06,C07 tier=quick unwind=12
 renc!(renc_14_3, 14, 3);
-//@ props=C01,C05,C06,C07,C10,C20 tier=quick unwind=13
+//@ props=C01,C05,C20 tier=thorough unwind=13
+dec!(dec_15_0, 15, 0);
+//@ props=C02 tier=thorough unwind=13
+decm!(decm_15_0, 15, 0);
+//@ props=C01,C05,C20 tier=quick unwind=13
+dec!(dec_15_3, 15, 3);
+//@ props=C02 tier=thorough unwind=13
+decm!(decm_15_3, 15, 3);
+//@ props=C01,C05,C20 tier=quick unwind=13
+dec!(dec_15_4, 15, 4);
+//@ props=C02 tier=quick unwind=13
+decm!(decm_15_4, 15, 4);
+//@ props=C10,C06,C07 tier=thorough unwind=13
 renc!(renc_15_4, 15, 4);
-//@ props=C01,C05,C06,C07,C10,C20 tier=quick unwind=14
+//@ props=C01,C05 tier=thorough unwind=14
+dec!(dec_15_5, 15, 5);
+//@ props=C02 tier=thorough unwind=14
+decm!(decm_15_5, 15, 5);
+//@ props=C10,C06,C07 tier=quick unwind=14
 renc!(renc_15_5, 15, 5);
-//@ props=C01,C05,C06,C07,C10,C20 tier=quick unwind=13
+//@ props=C01,C05,C20 tier=thorough unwind=13
+dec!(dec_16_0, 16, 0);
+//@ props=C02 tier=thorough unwind=13
+decm!(decm_16_0, 16, 0);
+//@ props=C01,C05,C20 tier=quick unwind=13
+dec!(dec_16_3, 16, 3);
+//@ props=C02 tier=thorough unwind=13
+decm!(decm_16_3, 16, 3);
+//@ props=C01,C05,C20 tier=quick unwind=13
+dec!(dec_16_4, 16, 4);
+//@ props=C02 tier=quick unwind=13
+decm!(decm_16_4, 16, 4);
+//@ props=C10,C06,C07 tier=thorough unwind=13
 renc!(renc_16_4, 16, 4);
-//@ props=C01,C05,C06,C07,C10,C20 tier=quick unwind=14
+//@ props=C01,C05 tier=thorough unwind=14
+dec!(dec_16_5, 16, 5);
+//@ props=C02 tier=thorough unwind=14
+decm!(decm_16_5, 16, 5);
+//@ props=C10,C06,C07 tier=quick unwind=14
 renc!(renc_16_5, 16, 5);
-//@ props=C01,C05,C06,C07,C10,C20 tier=quick unwind=13
+//@ props=C01,C05,C20 tier=thorough unwind=13
+dec!(dec_17_0, 17, 0);
+//@ props=C02 tier=thorough unwind=13
+decm!(decm_17_0, 17, 0);
+//@ props=C01,C05,C20 tier=quick unwind=13
+dec!(dec_17_3, 17, 3);
+//@ props=C02 tier=thorough unwind=13
+decm!(decm_17_3, 17, 3);
+//@ props=C01,C05,C20 tier=quick unwind=13
+dec!(dec_17_4, 17, 4);
+//@ props=C02 tier=quick unwind=13
+decm!(decm_17_4, 17, 4);
+//@ props=C10,C06,C07 tier=thorough unwind=13
 renc!(renc_17_4, 17, 4);
-//@ props=C01,C05,C06,C07,C10,C20 tier=quick unwind=14
+//@ props=C01,C05 tier=thorough unwind=14
+dec!(dec_17_5, 17, 5);
+//@ props=C02 tier=thorough unwind=14
+decm!(decm_17_5, 17, 5);
+//@ props=C10,C06,C07 tier=quick unwind=14
 renc!(renc_17_5, 17, 5);
-//@ props=C01,C05,C06,C07,C10,C20 tier=quick unwind=13
+//@ props=C01,C05,C20 tier=thorough unwind=13
+dec!(dec_18_0, 18, 0);
+//@ props=C02 tier=thorough unwind=13
+decm!(decm_18_0, 18, 0);
+//@ props=C01,C05,C20 tier=quick unwind=13
+dec!(dec_18_3, 18, 3);
+//@ props=C02 tier=thorough unwind=13
+decm!(decm_18_3, 18, 3);
+//@ props=C01,C05,C20 tier=quick unwind=13
+dec!(dec_18_4, 18, 4);
+//@ props=C02 tier=quick unwind=13
+decm!(decm_18_4, 18, 4);
+//@ props=C10,C06,C07 tier=thorough unwind=13
 renc!(renc_18_4, 18, 4);
-//@ props=C01,C05,C06,C07,C10,C20 tier=quick unwind=14
+//@ props=C01,C05 tier=thorough unwind=14
+dec!(dec_18_5, 18, 5);
+//@ props=C02 tier=thorough unwind=14
+decm!(decm_18_5, 18, 5);
+//@ props=C10,C06,C07 tier=quick unwind=14
 renc!(renc_18_5, 18, 5);
-//@ props=C01,C05,C06,C07,C10,C20 tier=quick unwind=13
+//@ props=C01,C05,C20 tier=thorough unwind=13
+dec!(dec_19_0, 19, 0);
+//@ props=C02 tier=thorough unwind=13
+decm!(decm_19_0, 19, 0);
+//@ props=C01,C05,C20 tier=quick unwind=13
+dec!(dec_19_3, 19, 3);
+//@ props=C02 tier=thorough unwind=13
+decm!(decm_19_3, 19, 3);
+//@ props=C01,C05,C20 tier=quick unwind=13
+dec!(dec_19_4, 19, 4);
+//@ props=C02 tier=quick unwind=13
+decm!(decm_19_4, 19, 4);
+//@ props=C10,C06,C07 tier=thorough unwind=13
 renc!(renc_19_4, 19, 4);
-//@ props=C01,C05,C06,C07,C10,C20 tier=quick unwind=14
+//@ props=C01,C05 tier=thorough unwind=14
+dec!(dec_19_5, 19, 5);
+//@ props=C02 tier=thorough unwind=14
+decm!(decm_19_5, 19, 5);
+//@ props=C10,C06,C07 tier=quick unwind=14
 renc!(renc_19_5, 19, 5);
-//@ props=C01,C05,C06,C07,C10,C20 tier=quick unwind=10 stubs=utf8
+//@ props=C01,C05,C20 tier=thorough unwind=9
+dec!(dec_20_0, 20, 0);
+//@ props=C02 tier=thorough unwind=9
+decm!(decm_20_0, 20, 0);
+//@ props=C01,C05,C20 tier=quick unwind=11
+dec!(dec_20_2, 20, 2);
+//@ props=C02 tier=quick unwind=11
+decm!(decm_20_2, 20, 2);
+//@ props=C01,C05,C20 tier=quick unwind=9 stubs=utf8
+dec!(dec_21_0, 21, 0);
+//@ props=C02 tier=thorough unwind=9 stubs=utf8
+decm!(decm_21_0, 21, 0);
+//@ props=C01,C05,C20 tier=thorough unwind=10 stubs=utf8
+dec!(dec_21_1, 21, 1);
+//@ props=C02 tier=thorough unwind=10 stubs=utf8
+decm!(decm_21_1, 21, 1);
+//@ props=C10,C06,C07 tier=thorough unwind=10 stubs=utf8
 renc!(renc_21_1, 21, 1);
-//@ props=C01,C05,C06,C07,C10,C20 tier=quick unwind=11 stubs=utf8
+//@ props=C01,C05,C20 tier=thorough unwind=11 stubs=utf8
+dec!(dec_21_2, 21, 2);
+//@ props=C02 tier=thorough unwind=11 stubs=utf8
+decm!(decm_21_2, 21, 2);
+//@ props=C10,C06,C07 tier=thorough unwind=11 stubs=utf8
 renc!(renc_21_2, 21, 2);
-//@ props=C01,C05,C06,C07,C10,C20 tier=quick unwind=12 stubs=utf8
+//@ props=C01,C05,C20 tier=quick unwind=12 stubs=utf8
+dec!(dec_21_3, 21, 3);
+//@ props=C02 tier=quick unwind=12 stubs=utf8
+decm!(decm_21_3, 21, 3);
+//@ props=C10,C06,C07 tier=quick unwind=12 stubs=utf8
 renc!(renc_21_3, 21, 3);
-//@ props=C01,C05,C06,C07,C10,C20 tier=quick unwind=13 stubs=utf8
+//@ props=C01,C05,C20 tier=thorough unwind=13 stubs=utf8
+dec!(dec_21_4, 21, 4);
+//@ props=C02 tier=thorough unwind=13 stubs=utf8
+decm!(decm_21_4, 21, 4);
+//@ props=C10,C06,C07 tier=thorough unwind=13 stubs=utf8
 renc!(renc_21_4, 21, 4);
-//@ props=C01,C05,C06,C07,C10,C20 tier=thorough unwind=14 stubs=utf8
+//@ props=C01,C05,C20 tier=thorough unwind=14 stubs=utf8
+dec!(dec_21_5, 21, 5);
+//@ props=C02 tier=thorough unwind=14 stubs=utf8
+decm!(decm_21_5, 21, 5);
+//@ props=C10,C06,C07 tier=thorough unwind=14 stubs=utf8
 renc!(renc_21_5, 21, 5);
-//@ props=C01,C05,C06,C07,C10,C20 tier=thorough unwind=15 stubs=utf8
+//@ props=C01,C05,C20 tier=thorough unwind=15 stubs=utf8
+dec!(dec_21_6, 21, 6);
+//@ props=C02 tier=thorough unwind=15 stubs=utf8
+decm!(decm_21_6, 21, 6);
+//@ props=C10,C06,C07 tier=thorough unwind=15 stubs=utf8
 renc!(renc_21_6, 21, 6);
-//@ props=C01,C05,C06,C07,C10,C20 tier=quick unwind=10 stubs=utf8
+//@ props=C01,C05,C20 tier=quick unwind=9 stubs=utf8
+dec!(dec_22_0, 22, 0);
+//@ props=C02 tier=thorough unwind=9 stubs=utf8
+decm!(decm_22_0, 22, 0);
+//@ props=C01,C05,C20 tier=thorough unwind=10 stubs=utf8
+dec!(dec_22_1, 22, 1);
+//@ props=C02 tier=thorough unwind=10 stubs=utf8
+decm!(decm_22_1, 22, 1);
+//@ props=C10,C06,C07 tier=thorough unwind=10 stubs=utf8
 renc!(renc_22_1, 22, 1);
-//@ props=C01,C05,C06,C07,C10,C20 tier=quick unwind=11 stubs=utf8
+//@ props=C01,C05,C20 tier=thorough unwind=11 stubs=utf8
+dec!(dec_22_2, 22, 2);
+//@ props=C02 tier=thorough unwind=11 stubs=utf8
+decm!(decm_22_2, 22, 2);
+//@ props=C10,C06,C07 tier=thorough unwind=11 stubs=utf8
 renc!(renc_22_2, 22, 2);
-//@ props=C01,C05,C06,C07,C10,C20 tier=quick unwind=12 stubs=utf8
+//@ props=C01,C05,C20 tier=quick unwind=12 stubs=utf8
+dec!(dec_22_3, 22, 3);
+//@ props=C02 tier=quick unwind=12 stubs=utf8
+decm!(decm_22_3, 22, 3);
+//@ props=C10,C06,C07 tier=quick unwind=12 stubs=utf8
 renc!(renc_22_3, 22, 3);
-//@ props=C01,C05,C06,C07,C10,C20 tier=quick unwind=13 stubs=utf8
+//@ props=C01,C05,C20 tier=thorough unwind=13 stubs=utf8
+dec!(dec_22_4, 22, 4);
+//@ props=C02 tier=thorough unwind=13 stubs=utf8
+decm!(decm_22_4, 22, 4);
+//@ props=C10,C06,C07 tier=thorough unwind=13 stubs=utf8
 renc!(renc_22_4, 22, 4);
-//@ props=C01,C05,C06,C07,C10,C20 tier=thorough unwind=14 stubs=utf8
+//@ props=C01,C05,C20 tier=thorough unwind=14 stubs=utf8
+dec!(dec_22_5, 22, 5);
+//@ props=C02 tier=thorough unwind=14 stubs=utf8
+decm!(decm_22_5, 22, 5);
+//@ props=C10,C06,C07 tier=thorough unwind=14 stubs=utf8
 renc!(renc_22_5, 22, 5);
-//@ props=C01,C05,C06,C07,C10,C20 tier=thorough unwind=15 stubs=utf8
+//@ props=C01,C05,C20 tier=thorough unwind=15 stubs=utf8
+dec!(dec_22_6, 22, 6);
+//@ props=C02 tier=thorough unwind=15 stubs=utf8
+decm!(decm_22_6, 22, 6);
+//@ props=C10,C06,C07 tier=thorough unwind=15 stubs=utf8
 renc!(renc_22_6, 22, 6);
-//@ props=C01,C05,C06,C07,C10,C20 tier=quick unwind=10 stubs=utf8
+//@ props=C01,C05,C20 tier=quick unwind=9 stubs=utf8
+dec!(dec_23_0, 23, 0);
+//@ props=C02 tier=thorough unwind=9 stubs=utf8
+decm!(decm_23_0, 23, 0);
+//@ props=C01,C05,C20 tier=thorough unwind=10 stubs=utf8
+dec!(dec_23_1, 23, 1);
+//@ props=C02 tier=thorough unwind=10 stubs=utf8
+decm!(decm_23_1, 23, 1);
+//@ props=C10,C06,C07 tier=thorough unwind=10 stubs=utf8
 renc!(renc_23_1, 23, 1);
-//@ props=C01,C05,C06,C07,C10,C20 tier=quick unwind=11 stubs=utf8
+//@ props=C01,C05,C20 tier=thorough unwind=11 stubs=utf8
+dec!(dec_23_2, 23, 2);
+//@ props=C02 tier=thorough unwind=11 stubs=utf8
+decm!(decm_23_2, 23, 2);
+//@ props=C10,C06,C07 tier=thorough unwind=11 stubs=utf8
 renc!(renc_23_2, 23, 2);
-//@ props=C01,C05,C06,C07,C10,C20 tier=quick unwind=12 stubs=utf8
+//@ props=C01,C05,C20 tier=quick unwind=12 stubs=utf8
+dec!(dec_23_3, 23, 3);
+//@ props=C02 tier=quick unwind=12 stubs=utf8
+decm!(decm_23_3, 23, 3);
+//@ props=C10,C06,C07 tier=quick unwind=12 stubs=utf8
 renc!(renc_23_3, 23, 3);
-//@ props=C01,C05,C06,C07,C10,C20 tier=quick unwind=13 stubs=utf8
+//@ props=C01,C05,C20 tier=thorough unwind=13 stubs=utf8
+dec!(dec_23_4, 23, 4);
+//@ props=C02 tier=thorough unwind=13 stubs=utf8
+decm!(decm_23_4, 23, 4);
+//@ props=C10,C06,C07 tier=thorough unwind=13 stubs=utf8
 renc!(renc_23_4, 23, 4);
-//@ props=C01,C05,C06,C07,C10,C20 tier=thorough unwind=14 stubs=utf8
+//@ props=C01,C05,C20 tier=thorough unwind=14 stubs=utf8
+dec!(dec_23_5, 23, 5);
+//@ props=C02 tier=thorough unwind=14 stubs=utf8
+decm!(decm_23_5, 23, 5);
+//@ props=C10,C06,C07 tier=thorough unwind=14 stubs=utf8
 renc!(renc_23_5, 23, 5);
-//@ props=C01,C05,C06,C07,C10,C20 tier=thorough unwind=15 stubs=utf8
+//@ props=C01,C05,C20 tier=thorough unwind=15 stubs=utf8
+dec!(dec_23_6, 23, 6);
+//@ props=C02 tier=thorough unwind=15 stubs=utf8
+decm!(decm_23_6, 23, 6);
+//@ props=C10,C06,C07 tier=thorough unwind=15 stubs=utf8
 renc!(renc_23_6, 23, 6);
-//@ props=C01,C05,C06,C07,C10,C20 tier=quick unwind=13
+//@ props=C01,C05,C20 tier=thorough unwind=13
+dec!(dec_24_0, 24, 0);
+//@ props=C02 tier=thorough unwind=13
+decm!(decm_24_0, 24, 0);
+//@ props=C01,C05,C20 tier=quick unwind=13
+dec!(dec_24_3, 24, 3);
+//@ props=C02 tier=thorough unwind=13
+decm!(decm_24_3, 24, 3);
+//@ props=C01,C05,C20 tier=quick unwind=13
+dec!(dec_24_4, 24, 4);
+//@ props=C02 tier=quick unwind=13
+decm!(decm_24_4, 24, 4);
+//@ props=C10,C06,C07 tier=thorough unwind=13
 renc!(renc_24_4, 24, 4);
-//@ props=C01,C05,C06,C07,C10,C20 tier=quick unwind=14
+//@ props=C01,C05 tier=thorough unwind=14
+dec!(dec_24_5, 24, 5);
+//@ props=C02 tier=thorough unwind=14
+decm!(decm_24_5, 24, 5);
+//@ props=C10,C06,C07 tier=quick unwind=14
 renc!(renc_24_5, 24, 5);
-//@ props=C01,C05,C06,C07,C10,C20 tier=quick unwind=13
+//@ props=C01,C05,C20 tier=thorough unwind=13
+dec!(dec_25_0, 25, 0);
+//@ props=C02 tier=thorough unwind=13
+decm!(decm_25_0, 25, 0);
+//@ props=C01,C05,C20 tier=quick unwind=13
+dec!(dec_25_3, 25, 3);
+//@ props=C02 tier=thorough unwind=13
+decm!(decm_25_3, 25, 3);
+//@ props=C01,C05,C20 tier=quick unwind=13
+dec!(dec_25_4, 25, 4);
+//@ props=C02 tier=quick unwind=13
+decm!(decm_25_4, 25, 4);
+//@ props=C10,C06,C07 tier=thorough unwind=13
 renc!(renc_25_4, 25, 4);
-//@ props=C01,C05,C06,C07,C10,C20 tier=quick unwind=14
+//@ props=C01,C05 tier=thorough unwind=14
+dec!(dec_25_5, 25, 5);
+//@ props=C02 tier=thorough unwind=14
+decm!(decm_25_5, 25, 5);
+//@ props=C10,C06,C07 tier=quick unwind=14
 renc!(renc_25_5, 25, 5);
-//@ props=C01,C05,C06,C07,C10,C20 tier=quick unwind=10
+//@ props=C01,C05,C20 tier=quick unwind=9
+dec!(dec_26_0, 26, 0);
+//@ props=C02 tier=thorough unwind=9
+decm!(decm_26_0, 26, 0);
+//@ props=C01,C05,C20 tier=thorough unwind=10
+dec!(dec_26_1, 26, 1);
+//@ props=C02 tier=thorough unwind=10
+decm!(decm_26_1, 26, 1);
+//@ props=C10,C06,C07 tier=thorough unwind=10
 renc!(renc_26_1, 26, 1);
-//@ props=C01,C05,C06,C07,C10,C20 tier=quick unwind=12
+//@ props=C01,C05,C20 tier=quick unwind=12
+dec!(dec_26_3, 26, 3);
+//@ props=C02 tier=quick unwind=12
+decm!(decm_26_3, 26, 3);
+//@ props=C10,C06,C07 tier=quick unwind=12
 renc!(renc_26_3, 26, 3);
-//@ props=C01,C05,C06,C07,C10,C20 tier=thorough unwind=16
+//@ props=C01,C05,C20 tier=thorough unwind=16
+dec!(dec_26_7, 26, 7);
+//@ props=C02 tier=thorough unwind=16
+decm!(decm_26_7, 26, 7);
+//@ props=C10,C06,C07 tier=thorough unwind=16
 renc!(renc_26_7, 26, 7);
-//@ props=C01,C05,C06,C07,C10,C20 tier=quick unwind=10
+//@ props=C01,C05,C20 tier=quick unwind=9
+dec!(dec_27_0, 27, 0);
+//@ props=C02 tier=thorough unwind=9
+decm!(decm_27_0, 27, 0);
+//@ props=C01,C05,C20 tier=thorough unwind=10
+dec!(dec_27_1, 27, 1);
+//@ props=C02 tier=thorough unwind=10
+decm!(decm_27_1, 27, 1);
+//@ props=C10,C06,C07 tier=thorough unwind=10
 renc!(renc_27_1, 27, 1);
-//@ props=C01,C05,C06,C07,C10,C20 tier=quick unwind=12
+//@ props=C01,C05,C20 tier=quick unwind=12
+dec!(dec_27_3, 27, 3);
+//@ props=C02 tier=quick unwind=12
+decm!(decm_27_3, 27, 3);
+//@ props=C10,C06,C07 tier=quick unwind=12
 renc!(renc_27_3, 27, 3);
-//@ props=C01,C05,C06,C07,C10,C20 tier=thorough unwind=16
+//@ props=C01,C05,C20 tier=thorough unwind=16
+dec!(dec_27_7, 27, 7);
+//@ props=C02 tier=thorough unwind=16
+decm!(decm_27_7, 27, 7);
+//@ props=C10,C06,C07 tier=thorough unwind=16
 renc!(renc_27_7, 27, 7);
-//@ props=C01,C05,C06,C07,C10,C20 tier=quick unwind=10
+//@ props=C01,C05,C20 tier=quick unwind=9
+dec!(dec_28_0, 28, 0);
+//@ props=C02 tier=thorough unwind=9
+decm!(decm_28_0, 28, 0);
+//@ props=C01,C05,C20 tier=thorough unwind=10
+dec!(dec_28_1, 28, 1);
+//@ props=C02 tier=thorough unwind=10
+decm!(decm_28_1, 28, 1);
+//@ props=C10,C06,C07 tier=thorough unwind=10
 renc!(renc_28_1, 28, 1);
-//@ props=C01,C05,C06,C07,C10,C20 tier=quick unwind=12
+//@ props=C01,C05,C20 tier=quick unwind=12
+dec!(dec_28_3, 28, 3);
+//@ props=C02 tier=quick unwind=12
+decm!(decm_28_3, 28, 3);
+//@ props=C10,C06,C07 tier=quick unwind=12
 renc!(renc_28_3, 28, 3);
-//@ props=C01,C05,C06,C07,C10,C20 tier=thorough unwind=16
+//@ props=C01,C05,C20 tier=thorough unwind=16
+dec!(dec_28_7, 28, 7);
+//@ props=C02 tier=thorough unwind=16
+decm!(decm_28_7, 28, 7);
+//@ props=C10,C06,C07 tier=thorough unwind=16
 renc!(renc_28_7, 28, 7);
-//@ props=C01,C05,C06,C07,C10,C20 tier=quick unwind=11
+//@ props=C01,C05,C20 tier=thorough unwind=11
+dec!(dec_29_0, 29, 0);
+//@ props=C02 tier=thorough unwind=11
+decm!(decm_29_0, 29, 0);
+//@ props=C01,C05,C20 tier=quick unwind=11
+dec!(dec_29_1, 29, 1);
+//@ props=C02 tier=thorough unwind=11
+decm!(decm_29_1, 29, 1);
+//@ props=C01,C05,C20 tier=quick unwind=11
+dec!(dec_29_2, 29, 2);
+//@ props=C02 tier=quick unwind=11
+decm!(decm_29_2, 29, 2);
+//@ props=C10,C06,C07 tier=thorough unwind=11
 renc!(renc_29_2, 29, 2);
-//@ props=C01,C05,C06,C07,C10,C20 tier=quick unwind=12
+//@ props=C01,C05 tier=thorough unwind=12
+dec!(dec_29_3, 29, 3);
+//@ props=C02 tier=thorough unwind=12
+decm!(decm_29_3, 29, 3);
+//@ props=C10,C06,C07 tier=quick unwind=12
 renc!(renc_29_3, 29, 3);
-//@ props=C01,C05,C06,C07,C10,C20 tier=quick unwind=10
+//@ props=C01,C05,C20 tier=quick unwind=9
+dec!(dec_30_0, 30, 0);
+//@ props=C02 tier=thorough unwind=9
+decm!(decm_30_0, 30, 0);
+//@ props=C01,C05,C20 tier=thorough unwind=10
+dec!(dec_30_1, 30, 1);
+//@ props=C02 tier=thorough unwind=10
+decm!(decm_30_1, 30, 1);
+//@ props=C10,C06,C07 tier=thorough unwind=10
 renc!(renc_30_1, 30, 1);
-//@ props=C01,C05,C06,C07,C10,C20 tier=quick unwind=12
+//@ props=C01,C05,C20 tier=quick unwind=12
+dec!(dec_30_3, 30, 3);
+//@ props=C02 tier=quick unwind=12
+decm!(decm_30_3, 30, 3);
+//@ props=C10,C06,C07 tier=quick unwind=12
 renc!(renc_30_3, 30, 3);
-//@ props=C01,C05,C06,C07,C10,C20 tier=thorough unwind=16
+//@ props=C01,C05,C20 tier=thorough unwind=16
+dec!(dec_30_7, 30, 7);
+//@ props=C02 tier=thorough unwind=16
+decm!(decm_30_7, 30, 7);
+//@ props=C10,C06,C07 tier=thorough unwind=16
 renc!(renc_30_7, 30, 7);
-//@ props=C01,C05,C06,C07,C10,C20 tier=quick unwind=10
+//@ props=C01,C05,C20 tier=quick unwind=9
+dec!(dec_31_0, 31, 0);
+//@ props=C02 tier=thorough unwind=9
+decm!(decm_31_0, 31, 0);
+//@ props=C01,C05,C20 tier=thorough unwind=10
+dec!(dec_31_1, 31, 1);
+//@ props=C02 tier=thorough unwind=10
+decm!(decm_31_1, 31, 1);
+//@ props=C10,C06,C07 tier=thorough unwind=10
 renc!(renc_31_1, 31, 1);
-//@ props=C01,C05,C06,C07,C10,C20 tier=quick unwind=12
+//@ props=C01,C05,C20 tier=quick unwind=12
+dec!(dec_31_3, 31, 3);
+//@ props=C02 tier=quick unwind=12
+decm!(decm_31_3, 31, 3);
+//@ props=C10,C06,C07 tier=quick unwind=12
 renc!(renc_31_3, 31, 3);
-//@ props=C01,C05,C06,C07,C10,C20 tier=thorough unwind=16
+//@ props=C01,C05,C20 tier=thorough unwind=16
+dec!(dec_31_7, 31, 7);
+//@ props=C02 tier=thorough unwind=16
+decm!(decm_31_7, 31, 7);
+//@ props=C10,C06,C07 tier=thorough unwind=16
 renc!(renc_31_7, 31, 7);
-//@ props=C01,C05,C06,C07,C10,C20 tier=quick unwind=11
+//@ props=C01,C05,C20 tier=thorough unwind=11
+dec!(dec_32_0, 32, 0);
+//@ props=C02 tier=thorough unwind=11
+decm!(decm_32_0, 32, 0);
+//@ props=C01,C05,C20 tier=quick unwind=11
+dec!(dec_32_1, 32, 1);
+//@ props=C02 tier=thorough unwind=11
+decm!(decm_32_1, 32, 1);
+//@ props=C01,C05,C20 tier=quick unwind=11
+dec!(dec_32_2, 32, 2);
+//@ props=C02 tier=quick unwind=11
+decm!(decm_32_2, 32, 2);
+//@ props=C10,C06,C07 tier=thorough unwind=11
 renc!(renc_32_2, 32, 2);
-//@ props=C01,C05,C06,C07,C10,C20 tier=quick unwind=12
+//@ props=C01,C05 tier=thorough unwind=12
+dec!(dec_32_3, 32, 3);
+//@ props=C02 tier=thorough unwind=12
+decm!(decm_32_3, 32, 3);
+//@ props=C10,C06,C07 tier=quick unwind=12
 renc!(renc_32_3, 32, 3);
-//@ props=C01,C05,C06,C07,C10,C20 tier=quick unwind=10
+//@ props=C01,C05,C20 tier=quick unwind=9
+dec!(dec_33_0, 33, 0);
+//@ props=C02 tier=thorough unwind=9
+decm!(decm_33_0, 33, 0);
+//@ props=C01,C05,C20 tier=thorough unwind=10
+dec!(dec_33_1, 33, 1);
+//@ props=C02 tier=thorough unwind=10
+decm!(decm_33_1, 33, 1);
+//@ props=C10,C06,C07 tier=thorough unwind=10
 renc!(renc_33_1, 33, 1);
-//@ props=C01,C05,C06,C07,C10,C20 tier=quick unwind=12
+//@ props=C01,C05,C20 tier=quick unwind=12
+dec!(dec_33_3, 33, 3);
+//@ props=C02 tier=quick unwind=12
+decm!(decm_33_3, 33, 3);
+//@ props=C10,C06,C07 tier=quick unwind=12
 renc!(renc_33_3, 33, 3);
-//@ props=C01,C05,C06,C07,C10,C20 tier=thorough unwind=16
+//@ props=C01,C05,C20 tier=thorough unwind=16
+dec!(dec_33_7, 33, 7);
+//@ props=C02 tier=thorough unwind=16
+decm!(decm_33_7, 33, 7);
+//@ props=C10,C06,C07 tier=thorough unwind=16
 renc!(renc_33_7, 33, 7);
-//@ props=C01,C05,C06,C07,C10,C20 tier=quick unwind=35
+//@ props=C01,C05,C20 tier=thorough unwind=35
+dec!(dec_34_0, 34, 0);
+//@ props=C02 tier=thorough unwind=35
+decm!(decm_34_0, 34, 0);
+//@ props=C01,C05,C20 tier=quick unwind=35
+dec!(dec_34_25, 34, 25);
+//@ props=C02 tier=thorough unwind=35
+decm!(decm_34_25, 34, 25);
+//@ props=C01,C05,C20 tier=quick unwind=35
+dec!(dec_34_26, 34, 26);
+//@ props=C02 tier=quick unwind=35
+decm!(decm_34_26, 34, 26);
+//@ props=C10,C06,C07 tier=thorough unwind=35
 renc!(renc_34_26, 34, 26);
-//@ props=C01,C05,C06,C07,C10,C20 tier=quick unwind=36
+//@ props=C01,C05 tier=thorough unwind=36
+dec!(dec_34_27, 34, 27);
+//@ props=C02 tier=thorough unwind=36
+decm!(decm_34_27, 34, 27);
+//@ props=C10,C06,C07 tier=quick unwind=36
 renc!(renc_34_27, 34, 27);
-//@ props=C01,C05,C06,C07,C10,C20 tier=quick unwind=19
+//@ props=C01,C05,C20 tier=thorough unwind=19
+dec!(dec_35_0, 35, 0);
+//@ props=C02 tier=thorough unwind=19
+decm!(decm_35_0, 35, 0);
+//@ props=C01,C05,C20 tier=quick unwind=19
+dec!(dec_35_9, 35, 9);
+//@ props=C02 tier=thorough unwind=19
+decm!(decm_35_9, 35, 9);
+//@ props=C01,C05,C20 tier=quick unwind=19
+dec!(dec_35_10, 35, 10);
+//@ props=C02 tier=quick unwind=19
+decm!(decm_35_10, 35, 10);
+//@ props=C10,C06,C07 tier=thorough unwind=19
 renc!(renc_35_10, 35, 10);
-//@ props=C01,C05,C06,C07,C10,C20 tier=quick unwind=20
+//@ props=C01,C05 tier=thorough unwind=20
+dec!(dec_35_11, 35, 11);
+//@ props=C02 tier=thorough unwind=20
+decm!(decm_35_11, 35, 11);
+//@ props=C10,C06,C07 tier=quick unwind=20
 renc!(renc_35_11, 35, 11);
-//@ props=C01,C05,C06,C07,C10,C20 tier=quick unwind=13
+//@ props=C01,C05,C20 tier=thorough unwind=13
+dec!(dec_36_0, 36, 0);
+//@ props=C02 tier=thorough unwind=13
+decm!(decm_36_0, 36, 0);
+//@ props=C01,C05,C20 tier=quick unwind=13
+dec!(dec_36_3, 36, 3);
+//@ props=C02 tier=thorough unwind=13
+decm!(decm_36_3, 36, 3);
+//@ props=C01,C05,C20 tier=quick unwind=13
+dec!(dec_36_4, 36, 4);
+//@ props=C02 tier=quick unwind=13
+decm!(decm_36_4, 36, 4);
+//@ props=C10,C06,C07 tier=thorough unwind=13
 renc!(renc_36_4, 36, 4);
-//@ props=C01,C05,C06,C07,C10,C20 tier=quick unwind=14
+//@ props=C01,C05 tier=thorough unwind=14
+dec!(dec_36_5, 36, 5);
+//@ props=C02 tier=thorough unwind=14
+decm!(decm_36_5, 36, 5);
+//@ props=C10,C06,C07 tier=quick unwind=14
 renc!(renc_36_5, 36, 5);
-//@ props=C01,C05,C06,C07,C10,C20 tier=quick unwind=10
+//@ props=C01,C05,C20 tier=quick unwind=9
+dec!(dec_37_0, 37, 0);
+//@ props=C02 tier=thorough unwind=9
+decm!(decm_37_0, 37, 0);
+//@ props=C01,C05,C20 tier=thorough unwind=10
+dec!(dec_37_1, 37, 1);
+//@ props=C02 tier=thorough unwind=10
+decm!(decm_37_1, 37, 1);
+//@ props=C10,C06,C07 tier=thorough unwind=10
 renc!(renc_37_1, 37, 1);
-//@ props=C01,C05,C06,C07,C10,C20 tier=quick unwind=12
+//@ props=C01,C05,C20 tier=quick unwind=12
+dec!(dec_37_3, 37, 3);
+//@ props=C02 tier=quick unwind=12
+decm!(decm_37_3, 37, 3);
+//@ props=C10,C06,C07 tier=quick unwind=12
 renc!(renc_37_3, 37, 3);
-//@ props=C01,C05,C06,C07,C10,C20 tier=thorough unwind=16
+//@ props=C01,C05,C20 tier=thorough unwind=16
+dec!(dec_37_7, 37, 7);
+//@ props=C02 tier=thorough unwind=16
+decm!(decm_37_7, 37, 7);
+//@ props=C10,C06,C07 tier=thorough unwind=16
 renc!(renc_37_7, 37, 7);
-//@ props=C01,C05,C06,C07,C10,C20 tier=quick unwind=13
+//@ props=C01,C05,C20 tier=thorough unwind=13
+dec!(dec_38_0, 38, 0);
+//@ props=C02 tier=thorough unwind=13
+decm!(decm_38_0, 38, 0);
+//@ props=C01,C05,C20 tier=quick unwind=13
+dec!(dec_38_3, 38, 3);
+//@ props=C02 tier=thorough unwind=13
+decm!(decm_38_3, 38, 3);
+//@ props=C01,C05,C20 tier=quick unwind=13
+dec!(dec_38_4, 38, 4);
+//@ props=C02 tier=quick unwind=13
+decm!(decm_38_4, 38, 4);
+//@ props=C10,C06,C07 tier=thorough unwind=13
 renc!(renc_38_4, 38, 4);
-//@ props=C01,C05,C06,C07,C10,C20 tier=quick unwind=14
+//@ props=C01,C05 tier=thorough unwind=14
+dec!(dec_38_5, 38, 5);
+//@ props=C02 tier=thorough unwind=14
+decm!(decm_38_5, 38, 5);
+//@ props=C10,C06,C07 tier=quick unwind=14
 renc!(renc_38_5, 38, 5);
-//@ props=C01,C05,C06,C07,C10,C20 tier=quick unwind=9
+//@ props=C01,C05,C20 tier=quick unwind=9
+dec!(dec_39_0, 39, 0);
+//@ props=C02 tier=quick unwind=9
+decm!(decm_39_0, 39, 0);
+//@ props=C10,C06,C07 tier=thorough unwind=9
 renc!(renc_39_0, 39, 0);
-//@ props=C01,C05,C06,C07,C10,C20 tier=quick unwind=10
+//@ props=C01,C05 tier=thorough unwind=10
+dec!(dec_39_1, 39, 1);
+//@ props=C02 tier=thorough unwind=10
+decm!(decm_39_1, 39, 1);
+//@ props=C10,C06,C07 tier=quick unwind=10
 renc!(renc_39_1, 39, 1);
+//@ props=C01,C05,C20 tier=thorough unwind=9
+dec!(dec_40_0, 40, 0);
+//@ props=C02 tier=thorough unwind=9
+decm!(decm_40_0, 40, 0);
+//@ props=C01,C05,C20 tier=thorough unwind=11
+dec!(dec_40_2, 40, 2);
+//@ props=C02 tier=thorough unwind=11
+decm!(decm_40_2, 40, 2);
+//@ props=C01,C05,C20 tier=thorough unwind=9
+dec!(dec_65535_0, 65535, 0);
+//@ props=C02 tier=thorough unwind=9
+decm!(decm_65535_0, 65535, 0);
+//@ props=C01,C05,C20 tier=thorough unwind=11
+dec!(dec_65535_2, 65535, 2);
+//@ props=C02 tier=thorough unwind=11
+decm!(decm_65535_2, 65535, 2);
 //@ props=C03,C06,C07,C09 tier=quick unwind=14
 enc!(enc_0_2, 0, 2);
-//@ props=C03,C06,C07,C09 tier=quick unwind=14 stubs=utf8
+//@ props=C03,C06,C07,C09 tier=thorough unwind=14 stubs=utf8 cap=3600
 enc!(enc_1_2, 1, 2);
-//@ props=C03,C06,C07,C09 tier=quick unwind=16 stubs=utf8
+//@ props=C03,C06,C07,C09 tier=thorough unwind=16 stubs=utf8 cap=3600
 enc!(enc_1_4, 1, 4);
-//@ props=C03,C06,C07,C09 tier=quick unwind=17 stubs=utf8
+//@ props=C03,C06,C07,C09 tier=thorough unwind=17 stubs=utf8 cap=3600
 enc!(enc_1_5, 1, 5);
-//@ props=C03,C06,C07,C09 tier=quick unwind=20 stubs=utf8
+//@ props=C03,C06,C07,C09 tier=thorough unwind=20 stubs=utf8 cap=3600
 enc!(enc_1_8, 1, 8);
 //@ props=C03,C06,C07,C09 tier=quick unwind=14
 enc!(enc_2_2, 2, 2);
@@ -805,13 +1177,13 @@ enc!(enc_4_4, 4, 4);
 enc!(enc_5_8, 5, 8);
 //@ props=C03,C06,C07,C09 tier=quick unwind=14
 enc!(enc_6_2, 6, 2);
-//@ props=C03,C06,C07,C09 tier=quick unwind=13
+//@ props=C03,C06,C07,C09 tier=thorough unwind=13
 enc!(enc_7_1, 7, 1);
 //@ props=C03,C06,C07,C09 tier=quick unwind=16
 enc!(enc_7_4, 7, 4);
 //@ props=C03,C06,C07,C09 tier=thorough unwind=21
 enc!(enc_7_9, 7, 9);
-//@ props=C03,C06,C07,C09 tier=quick unwind=13 stubs=utf8
+//@ props=C03,C06,C07,C09 tier=thorough unwind=13 stubs=utf8
 enc!(enc_8_1, 8, 1);
 //@ props=C03,C06,C07,C09 tier=quick unwind=16 stubs=utf8
 enc!(enc_8_4, 8, 4);
@@ -821,7 +1193,7 @@ enc!(enc_8_6, 8, 6);
 enc!(enc_9_2, 9, 2);
 //@ props=C03,C06,C07,C09 tier=quick unwind=14
 enc!(enc_10_2, 10, 2);
-//@ props=C03,C06,C07,C09 tier=quick unwind=13
+//@ props=C03,C06,C07,C09 tier=thorough unwind=13
 enc!(enc_11_1, 11, 1);
 //@ props=C03,C06,C07,C09 tier=quick unwind=16
 enc!(enc_11_4, 11, 4);
@@ -829,7 +1201,7 @@ enc!(enc_11_4, 11, 4);
 enc!(enc_11_9, 11, 9);
 //@ props=C03,C06,C07,C09 tier=quick unwind=15 stubs=utf8
 enc!(enc_12_3, 12, 3);
-//@ props=C03,C06,C07,C09 tier=quick unwind=16 stubs=utf8
+//@ props=C03,C06,C07,C09 tier=thorough unwind=16 stubs=utf8
 enc!(enc_12_4, 12, 4);
 //@ props=C03,C06,C07,C09 tier=quick unwind=19 stubs=utf8
 enc!(enc_12_7, 12, 7);
@@ -847,19 +1219,19 @@ enc!(enc_17_4, 17, 4);
 enc!(enc_18_4, 18, 4);
 //@ props=C03,C06,C07,C09 tier=quick unwind=16
 enc!(enc_19_4, 19, 4);
-//@ props=C03,C06,C07,C09 tier=quick unwind=13 stubs=utf8
+//@ props=C03,C06,C07,C09 tier=thorough unwind=13 stubs=utf8
 enc!(enc_21_1, 21, 1);
 //@ props=C03,C06,C07,C09 tier=quick unwind=16 stubs=utf8
 enc!(enc_21_4, 21, 4);
 //@ props=C03,C06,C07,C09 tier=thorough unwind=18 stubs=utf8
 enc!(enc_21_6, 21, 6);
-//@ props=C03,C06,C07,C09 tier=quick unwind=13 stubs=utf8
+//@ props=C03,C06,C07,C09 tier=thorough unwind=13 stubs=utf8
 enc!(enc_22_1, 22, 1);
 //@ props=C03,C06,C07,C09 tier=quick unwind=16 stubs=utf8
 enc!(enc_22_4, 22, 4);
 //@ props=C03,C06,C07,C09 tier=thorough unwind=18 stubs=utf8
 enc!(enc_22_6, 22, 6);
-//@ props=C03,C06,C07,C09 tier=quick unwind=13 stubs=utf8
+//@ props=C03,C06,C07,C09 tier=thorough unwind=13 stubs=utf8
 enc!(enc_23_1, 23, 1);
 //@ props=C03,C06,C07,C09 tier=quick unwind=16 stubs=utf8
 enc!(enc_23_4, 23, 4);
@@ -869,19 +1241,19 @@ enc!(enc_23_6, 23, 6);
 enc!(enc_24_4, 24, 4);
 //@ props=C03,C06,C07,C09 tier=quick unwind=16
 enc!(enc_25_4, 25, 4);
-//@ props=C03,C06,C07,C09 tier=quick unwind=13
+//@ props=C03,C06,C07,C09 tier=thorough unwind=13
 enc!(enc_26_1, 26, 1);
 //@ props=C03,C06,C07,C09 tier=quick unwind=16
 enc!(enc_26_4, 26, 4);
 //@ props=C03,C06,C07,C09 tier=thorough unwind=21
 enc!(enc_26_9, 26, 9);
-//@ props=C03,C06,C07,C09 tier=quick unwind=13
+//@ props=C03,C06,C07,C09 tier=thorough unwind=13
 enc!(enc_27_1, 27, 1);
 //@ props=C03,C06,C07,C09 tier=quick unwind=16
 enc!(enc_27_4, 27, 4);
 //@ props=C03,C06,C07,C09 tier=thorough unwind=21
 enc!(enc_27_9, 27, 9);
-//@ props=C03,C06,C07,C09 tier=quick unwind=13
+//@ props=C03,C06,C07,C09 tier=thorough unwind=13
 enc!(enc_28_1, 28, 1);
 //@ props=C03,C06,C07,C09 tier=quick unwind=16
 enc!(enc_28_4, 28, 4);
@@ -889,13 +1261,13 @@ enc!(enc_28_4, 28, 4);
 enc!(enc_28_9, 28, 9);
 //@ props=C03,C06,C07,C09 tier=quick unwind=14
 enc!(enc_29_2, 29, 2);
-//@ props=C03,C06,C07,C09 tier=quick unwind=13
+//@ props=C03,C06,C07,C09 tier=thorough unwind=13
 enc!(enc_30_1, 30, 1);
 //@ props=C03,C06,C07,C09 tier=quick unwind=16
 enc!(enc_30_4, 30, 4);
 //@ props=C03,C06,C07,C09 tier=thorough unwind=21
 enc!(enc_30_9, 30, 9);
-//@ props=C03,C06,C07,C09 tier=quick unwind=13
+//@ props=C03,C06,C07,C09 tier=thorough unwind=13
 enc!(enc_31_1, 31, 1);
 //@ props=C03,C06,C07,C09 tier=quick unwind=16
 enc!(enc_31_4, 31, 4);
@@ -903,7 +1275,7 @@ enc!(enc_31_4, 31, 4);
 enc!(enc_31_9, 31, 9);
 //@ props=C03,C06,C07,C09 tier=quick unwind=14
 enc!(enc_32_2, 32, 2);
-//@ props=C03,C06,C07,C09 tier=quick unwind=13
+//@ props=C03,C06,C07,C09 tier=thorough unwind=13
 enc!(enc_33_1, 33, 1);
 //@ props=C03,C06,C07,C09 tier=quick unwind=16
 enc!(enc_33_4, 33, 4);
@@ -915,7 +1287,7 @@ enc!(enc_34_26, 34, 26);
 enc!(enc_35_10, 35, 10);
 //@ props=C03,C06,C07,C09 tier=quick unwind=16
 enc!(enc_36_4, 36, 4);
-//@ props=C03,C06,C07,C09 tier=quick unwind=13
+//@ props=C03,C06,C07,C09 tier=thorough unwind=13
 enc!(enc_37_1, 37, 1);
 //@ props=C03,C06,C07,C09 tier=quick unwind=16
 enc!(enc_37_4, 37, 4);
@@ -928,292 +1300,470 @@ enc!(enc_39_0, 39, 0);
 
 pub const HARNESSES: &[(&str, fn())] = &[
     ("dec_0_0", dec_0_0),
+    ("decm_0_0", decm_0_0),
     ("dec_0_1", dec_0_1),
+    ("decm_0_1", decm_0_1),
     ("dec_0_2", dec_0_2),
-    ("dec_0_3", dec_0_3),
-    ("dec_1_0", dec_1_0),
-    ("dec_1_1", dec_1_1),
-    ("dec_1_2", dec_1_2),
-    ("dec_1_3", dec_1_3),
-    ("dec_1_4", dec_1_4),
-    ("dec_1_5", dec_1_5),
-    ("dec_1_7", dec_1_7),
-    ("dec_1_8", dec_1_8),
-    ("dec_2_0", dec_2_0),
-    ("dec_2_1", dec_2_1),
-    ("dec_2_2", dec_2_2),
-    ("dec_2_3", dec_2_3),
-    ("dec_3_0", dec_3_0),
-    ("dec_3_3", dec_3_3),
-    ("dec_3_4", dec_3_4),
-    ("dec_3_5", dec_3_5),
-    ("dec_4_0", dec_4_0),
-    ("dec_4_3", dec_4_3),
-    ("dec_4_4", dec_4_4),
-    ("dec_4_5", dec_4_5),
-    ("dec_5_0", dec_5_0),
-    ("dec_5_7", dec_5_7),
-    ("dec_5_8", dec_5_8),
-    ("dec_5_9", dec_5_9),
-    ("dec_6_0", dec_6_0),
-    ("dec_6_1", dec_6_1),
-    ("dec_6_2", dec_6_2),
-    ("dec_6_3", dec_6_3),
-    ("dec_7_0", dec_7_0),
-    ("dec_7_1", dec_7_1),
-    ("dec_7_3", dec_7_3),
-    ("dec_7_7", dec_7_7),
-    ("dec_8_0", dec_8_0),
-    ("dec_8_1", dec_8_1),
-    ("dec_8_2", dec_8_2),
-    ("dec_8_3", dec_8_3),
-    ("dec_8_4", dec_8_4),
-    ("dec_8_5", dec_8_5),
-    ("dec_8_6", dec_8_6),
-    ("dec_9_0", dec_9_0),
-    ("dec_9_1", dec_9_1),
-    ("dec_9_2", dec_9_2),
-    ("dec_9_3", dec_9_3),
-    ("dec_10_0", dec_10_0),
-    ("dec_10_1", dec_10_1),
-    ("dec_10_2", dec_10_2),
-    ("dec_10_3", dec_10_3),
-    ("dec_11_0", dec_11_0),
-    ("dec_11_1", dec_11_1),
-    ("dec_11_3", dec_11_3),
-    ("dec_11_7", dec_11_7),
-    ("dec_12_0", dec_12_0),
-    ("dec_12_2", dec_12_2),
-    ("dec_12_3", dec_12_3),
-    ("dec_12_4", dec_12_4),
-    ("dec_12_6", dec_12_6),
-    ("dec_12_7", dec_12_7),
-    ("dec_13_0", dec_13_0),
-    ("dec_13_15", dec_13_15),
-    ("dec_13_16", dec_13_16),
-    ("dec_13_17", dec_13_17),
-    ("dec_14_0", dec_14_0),
-    ("dec_14_1", dec_14_1),
-    ("dec_14_2", dec_14_2),
-    ("dec_14_3", dec_14_3),
-    ("dec_15_0", dec_15_0),
-    ("dec_15_3", dec_15_3),
-    ("dec_15_4", dec_15_4),
-    ("dec_15_5", dec_15_5),
-    ("dec_16_0", dec_16_0),
-    ("dec_16_3", dec_16_3),
-    ("dec_16_4", dec_16_4),
-    ("dec_16_5", dec_16_5),
-    ("dec_17_0", dec_17_0),
-    ("dec_17_3", dec_17_3),
-    ("dec_17_4", dec_17_4),
-    ("dec_17_5", dec_17_5),
-    ("dec_18_0", dec_18_0),
-    ("dec_18_3", dec_18_3),
-    ("dec_18_4", dec_18_4),
-    ("dec_18_5", dec_18_5),
-    ("dec_19_0", dec_19_0),
-    ("dec_19_3", dec_19_3),
-    ("dec_19_4", dec_19_4),
-    ("dec_19_5", dec_19_5),
-    ("dec_20_0", dec_20_0),
-    ("dec_20_2", dec_20_2),
-    ("dec_21_0", dec_21_0),
-    ("dec_21_1", dec_21_1),
-    ("dec_21_2", dec_21_2),
-    ("dec_21_3", dec_21_3),
-    ("dec_21_4", dec_21_4),
-    ("dec_21_5", dec_21_5),
-    ("dec_21_6", dec_21_6),
-    ("dec_22_0", dec_22_0),
-    ("dec_22_1", dec_22_1),
-    ("dec_22_2", dec_22_2),
-    ("dec_22_3", dec_22_3),
-    ("dec_22_4", dec_22_4),
-    ("dec_22_5", dec_22_5),
-    ("dec_22_6", dec_22_6),
-    ("dec_23_0", dec_23_0),
-    ("dec_23_1", dec_23_1),
-    ("dec_23_2", dec_23_2),
-    ("dec_23_3", dec_23_3),
-    ("dec_23_4", dec_23_4),
-    ("dec_23_5", dec_23_5),
-    ("dec_23_6", dec_23_6),
-    ("dec_24_0", dec_24_0),
-    ("dec_24_3", dec_24_3),
-    ("dec_24_4", dec_24_4),
-    ("dec_24_5", dec_24_5),
-    ("dec_25_0", dec_25_0),
-    ("dec_25_3", dec_25_3),
-    ("dec_25_4", dec_25_4),
-    ("dec_25_5", dec_25_5),
-    ("dec_26_0", dec_26_0),
-    ("dec_26_1", dec_26_1),
-    ("dec_26_3", dec_26_3),
-    ("dec_26_7", dec_26_7),
-    ("dec_27_0", dec_27_0),
-    ("dec_27_1", dec_27_1),
-    ("dec_27_3", dec_27_3),
-    ("dec_27_7", dec_27_7),
-    ("dec_28_0", dec_28_0),
-    ("dec_28_1", dec_28_1),
-    ("dec_28_3", dec_28_3),
-    ("dec_28_7", dec_28_7),
-    ("dec_29_0", dec_29_0),
-    ("dec_29_1", dec_29_1),
-    ("dec_29_2", dec_29_2),
-    ("dec_29_3", dec_29_3),
-    ("dec_30_0", dec_30_0),
-    ("dec_30_1", dec_30_1),
-    ("dec_30_3", dec_30_3),
-    ("dec_30_7", dec_30_7),
-    ("dec_31_0", dec_31_0),
-    ("dec_31_1", dec_31_1),
-    ("dec_31_3", dec_31_3),
-    ("dec_31_7", dec_31_7),
-    ("dec_32_0", dec_32_0),
-    ("dec_32_1", dec_32_1),
-    ("dec_32_2", dec_32_2),
-    ("dec_32_3", dec_32_3),
-    ("dec_33_0", dec_33_0),
-    ("dec_33_1", dec_33_1),
-    ("dec_33_3", dec_33_3),
-    ("dec_33_7", dec_33_7),
-    ("dec_34_0", dec_34_0),
-    ("dec_34_25", dec_34_25),
-    ("dec_34_26", dec_34_26),
-    ("dec_34_27", dec_34_27),
-    ("dec_35_0", dec_35_0),
-    ("dec_35_9", dec_35_9),
-    ("dec_35_10", dec_35_10),
-    ("dec_35_11", dec_35_11),
-    ("dec_36_0", dec_36_0),
-    ("dec_36_3", dec_36_3),
-    ("dec_36_4", dec_36_4),
-    ("dec_36_5", dec_36_5),
-    ("dec_37_0", dec_37_0),
-    ("dec_37_1", dec_37_1),
-    ("dec_37_3", dec_37_3),
-    ("dec_37_7", dec_37_7),
-    ("dec_38_0", dec_38_0),
-    ("dec_38_3", dec_38_3),
-    ("dec_38_4", dec_38_4),
-    ("dec_38_5", dec_38_5),
-    ("dec_39_0", dec_39_0),
-    ("dec_39_1", dec_39_1),
-    ("dec_40_0", dec_40_0),
-    ("dec_40_2", dec_40_2),
-    ("dec_65535_0", dec_65535_0),
-    ("dec_65535_2", dec_65535_2),
+    ("decm_0_2", decm_0_2),
     ("renc_0_2", renc_0_2),
+    ("dec_0_3", dec_0_3),
+    ("decm_0_3", decm_0_3),
     ("renc_0_3", renc_0_3),
+    ("dec_1_0", dec_1_0),
+    ("decm_1_0", decm_1_0),
+    ("dec_1_1", dec_1_1),
+    ("decm_1_1", decm_1_1),
+    ("dec_1_2", dec_1_2),
+    ("decm_1_2", decm_1_2),
     ("renc_1_2", renc_1_2),
+    ("dec_1_3", dec_1_3),
+    ("decm_1_3", decm_1_3),
     ("renc_1_3", renc_1_3),
+    ("dec_1_4", dec_1_4),
+    ("decm_1_4", decm_1_4),
     ("renc_1_4", renc_1_4),
+    ("dec_1_5", dec_1_5),
+    ("decm_1_5", decm_1_5),
     ("renc_1_5", renc_1_5),
+    ("dec_1_7", dec_1_7),
+    ("decm_1_7", decm_1_7),
     ("renc_1_7", renc_1_7),
+    ("dec_1_8", dec_1_8),
+    ("decm_1_8", decm_1_8),
     ("renc_1_8", renc_1_8),
+    ("dec_2_0", dec_2_0),
+    ("decm_2_0", decm_2_0),
+    ("dec_2_1", dec_2_1),
+    ("decm_2_1", decm_2_1),
+    ("dec_2_2", dec_2_2),
+    ("decm_2_2", decm_2_2),
     ("renc_2_2", renc_2_2),
+    ("dec_2_3", dec_2_3),
+    ("decm_2_3", decm_2_3),
     ("renc_2_3", renc_2_3),
+    ("dec_3_0", dec_3_0),
+    ("decm_3_0", decm_3_0),
+    ("dec_3_3", dec_3_3),
+    ("decm_3_3", decm_3_3),
+    ("dec_3_4", dec_3_4),
+    ("decm_3_4", decm_3_4),
     ("renc_3_4", renc_3_4),
+    ("dec_3_5", dec_3_5),
+    ("decm_3_5", decm_3_5),
     ("renc_3_5", renc_3_5),
+    ("dec_4_0", dec_4_0),
+    ("decm_4_0", decm_4_0),
+    ("dec_4_3", dec_4_3),
+    ("decm_4_3", decm_4_3),
+    ("dec_4_4", dec_4_4),
+    ("decm_4_4", decm_4_4),
     ("renc_4_4", renc_4_4),
+    ("dec_4_5", dec_4_5),
+    ("decm_4_5", decm_4_5),
     ("renc_4_5", renc_4_5),
+    ("dec_5_0", dec_5_0),
+    ("decm_5_0", decm_5_0),
+    ("dec_5_7", dec_5_7),
+    ("decm_5_7", decm_5_7),
+    ("dec_5_8", dec_5_8),
+    ("decm_5_8", decm_5_8),
     ("renc_5_8", renc_5_8),
+    ("dec_5_9", dec_5_9),
+    ("decm_5_9", decm_5_9),
     ("renc_5_9", renc_5_9),
+    ("dec_6_0", dec_6_0),
+    ("decm_6_0", decm_6_0),
+    ("dec_6_1", dec_6_1),
+    ("decm_6_1", decm_6_1),
+    ("dec_6_2", dec_6_2),
+    ("decm_6_2", decm_6_2),
     ("renc_6_2", renc_6_2),
+    ("dec_6_3", dec_6_3),
+    ("decm_6_3", decm_6_3),
     ("renc_6_3", renc_6_3),
+    ("dec_7_0", dec_7_0),
+    ("decm_7_0", decm_7_0),
+    ("dec_7_1", dec_7_1),
+    ("decm_7_1", decm_7_1),
     ("renc_7_1", renc_7_1),
+    ("dec_7_3", dec_7_3),
+    ("decm_7_3", decm_7_3),
     ("renc_7_3", renc_7_3),
+    ("dec_7_7", dec_7_7),
+    ("decm_7_7", decm_7_7),
     ("renc_7_7", renc_7_7),
+    ("dec_8_0", dec_8_0),
+    ("decm_8_0", decm_8_0),
+    ("dec_8_1", dec_8_1),
+    ("decm_8_1", decm_8_1),
     ("renc_8_1", renc_8_1),
+    ("dec_8_2", dec_8_2),
+    ("decm_8_2", decm_8_2),
     ("renc_8_2", renc_8_2),
+    ("dec_8_3", dec_8_3),
+    ("decm_8_3", decm_8_3),
     ("renc_8_3", renc_8_3),
+    ("dec_8_4", dec_8_4),
+    ("decm_8_4", decm_8_4),
     ("renc_8_4", renc_8_4),
+    ("dec_8_5", dec_8_5),
+    ("decm_8_5", decm_8_5),
     ("renc_8_5", renc_8_5),
+    ("dec_8_6", dec_8_6),
+    ("decm_8_6", decm_8_6),
     ("renc_8_6", renc_8_6),
+    ("dec_9_0", dec_9_0),
+    ("decm_9_0", decm_9_0),
+    ("dec_9_1", dec_9_1),
+    ("decm_9_1", decm_9_1),
+    ("dec_9_2", dec_9_2),
+    ("decm_9_2", decm_9_2),
     ("renc_9_2", renc_9_2),
+    ("dec_9_3", dec_9_3),
+    ("decm_9_3", decm_9_3),
     ("renc_9_3", renc_9_3),
+    ("dec_10_0", dec_10_0),
+    ("decm_10_0", decm_10_0),
+    ("dec_10_1", dec_10_1),
+    ("decm_10_1", decm_10_1),
+    ("dec_10_2", dec_10_2),
+    ("decm_10_2", decm_10_2),
     ("renc_10_2", renc_10_2),
+    ("dec_10_3", dec_10_3),
+    ("decm_10_3", decm_10_3),
     ("renc_10_3", renc_10_3),
+    ("dec_11_0", dec_11_0),
+    ("decm_11_0", decm_11_0),
+    ("dec_11_1", dec_11_1),
+    ("decm_11_1", decm_11_1),
     ("renc_11_1", renc_11_1),
+    ("dec_11_3", dec_11_3),
+    ("decm_11_3", decm_11_3),
     ("renc_11_3", renc_11_3),
+    ("dec_11_7", dec_11_7),
+    ("decm_11_7", decm_11_7),
     ("renc_11_7", renc_11_7),
+    ("dec_12_0", dec_12_0),
+    ("decm_12_0", decm_12_0),
+    ("dec_12_2", dec_12_2),
+    ("decm_12_2", decm_12_2),
+    ("dec_12_3", dec_12_3),
+    ("decm_12_3", decm_12_3),
     ("renc_12_3", renc_12_3),
+    ("dec_12_4", dec_12_4),
+    ("decm_12_4", decm_12_4),
     ("renc_12_4", renc_12_4),
+    ("dec_12_6", dec_12_6),
+    ("decm_12_6", decm_12_6),
     ("renc_12_6", renc_12_6),
+    ("dec_12_7", dec_12_7),
+    ("decm_12_7", decm_12_7),
     ("renc_12_7", renc_12_7),
+    ("dec_13_0", dec_13_0),
+    ("decm_13_0", decm_13_0),
+    ("dec_13_15", dec_13_15),
+    ("decm_13_15", decm_13_15),
+    ("dec_13_16", dec_13_16),
+    ("decm_13_16", decm_13_16),
     ("renc_13_16", renc_13_16),
+    ("dec_13_17", dec_13_17),
+    ("decm_13_17", decm_13_17),
     ("renc_13_17", renc_13_17),
+    ("dec_14_0", dec_14_0),
+    ("decm_14_0", decm_14_0),
+    ("dec_14_1", dec_14_1),
+    ("decm_14_1", decm_14_1),
+    ("dec_14_2", dec_14_2),
+    ("decm_14_2", decm_14_2),
     ("renc_14_2", renc_14_2),
+    ("dec_14_3", dec_14_3),
+    ("decm_14_3", decm_14_3),
     ("renc_14_3", renc_14_3),
+    ("dec_15_0", dec_15_0),
+    ("decm_15_0", decm_15_0),
+    ("dec_15_3", dec_15_3),
+    ("decm_15_3", decm_15_3),
+    ("dec_15_4", dec_15_4),
+    ("decm_15_4", decm_15_4),
     ("renc_15_4", renc_15_4),
+    ("dec_15_5", dec_15_5),
+    ("decm_15_5", decm_15_5),
     ("renc_15_5", renc_15_5),
+    ("dec_16_0", dec_16_0),
+    ("decm_16_0", decm_16_0),
+    ("dec_16_3", dec_16_3),
+    ("decm_16_3", decm_16_3),
+    ("dec_16_4", dec_16_4),
+    ("decm_16_4", decm_16_4),
     ("renc_16_4", renc_16_4),
+    ("dec_16_5", dec_16_5),
+    ("decm_16_5", decm_16_5),
     ("renc_16_5", renc_16_5),
+    ("dec_17_0", dec_17_0),
+    ("decm_17_0", decm_17_0),
+    ("dec_17_3", dec_17_3),
+    ("decm_17_3", decm_17_3),
+    ("dec_17_4", dec_17_4),
+    ("decm_17_4", decm_17_4),
     ("renc_17_4", renc_17_4),
+    ("dec_17_5", dec_17_5),
+    ("decm_17_5", decm_17_5),
     ("renc_17_5", renc_17_5),
+    ("dec_18_0", dec_18_0),
+    ("decm_18_0", decm_18_0),
+    ("dec_18_3", dec_18_3),
+    ("decm_18_3", decm_18_3),
+    ("dec_18_4", dec_18_4),
+    ("decm_18_4", decm_18_4),
     ("renc_18_4", renc_18_4),
+    ("dec_18_5", dec_18_5),
+    ("decm_18_5", decm_18_5),
     ("renc_18_5", renc_18_5),
+    ("dec_19_0", dec_19_0),
+    ("decm_19_0", decm_19_0),
+    ("dec_19_3", dec_19_3),
+    ("decm_19_3", decm_19_3),
+    ("dec_19_4", dec_19_4),
+    ("decm_19_4", decm_19_4),
     ("renc_19_4", renc_19_4),
+    ("dec_19_5", dec_19_5),
+    ("decm_19_5", decm_19_5),
     ("renc_19_5", renc_19_5),
+    ("dec_20_0", dec_20_0),
+    ("decm_20_0", decm_20_0),
+    ("dec_20_2", dec_20_2),
+    ("decm_20_2", decm_20_2),
+    ("dec_21_0", dec_21_0),
+    ("decm_21_0", decm_21_0),
+    ("dec_21_1", dec_21_1),
+    ("decm_21_1", decm_21_1),
     ("renc_21_1", renc_21_1),
+    ("dec_21_2", dec_21_2),
+    ("decm_21_2", decm_21_2),
     ("renc_21_2", renc_21_2),
+    ("dec_21_3", dec_21_3),
+    ("decm_21_3", decm_21_3),
     ("renc_21_3", renc_21_3),
+    ("dec_21_4", dec_21_4),
+    ("decm_21_4", decm_21_4),
     ("renc_21_4", renc_21_4),
+    ("dec_21_5", dec_21_5),
+    ("decm_21_5", decm_21_5),
     ("renc_21_5", renc_21_5),
+    ("dec_21_6", dec_21_6),
+    ("decm_21_6", decm_21_6),
     ("renc_21_6", renc_21_6),
+    ("dec_22_0", dec_22_0),
+    ("decm_22_0", decm_22_0),
+    ("dec_22_1", dec_22_1),
+    ("decm_22_1", decm_22_1),
     ("renc_22_1", renc_22_1),
+    ("dec_22_2", dec_22_2),
+    ("decm_22_2", decm_22_2),
     ("renc_22_2", renc_22_2),
+    ("dec_22_3", dec_22_3),
+    ("decm_22_3", decm_22_3),
     ("renc_22_3", renc_22_3),
+    ("dec_22_4", dec_22_4),
+    ("decm_22_4", decm_22_4),
     ("renc_22_4", renc_22_4),
+    ("dec_22_5", dec_22_5),
+    ("decm_22_5", decm_22_5),
     ("renc_22_5", renc_22_5),
+    ("dec_22_6", dec_22_6),
+    ("decm_22_6", decm_22_6),
     ("renc_22_6", renc_22_6),
+    ("dec_23_0", dec_23_0),
+    ("decm_23_0", decm_23_0),
+    ("dec_23_1", dec_23_1),
+    ("decm_23_1", decm_23_1),
     ("renc_23_1", renc_23_1),
+    ("dec_23_2", dec_23_2),
+    ("decm_23_2", decm_23_2),
     ("renc_23_2", renc_23_2),
+    ("dec_23_3", dec_23_3),
+    ("decm_23_3", decm_23_3),
     ("renc_23_3", renc_23_3),
+    ("dec_23_4", dec_23_4),
+    ("decm_23_4", decm_23_4),
     ("renc_23_4", renc_23_4),
+    ("dec_23_5", dec_23_5),
+    ("decm_23_5", decm_23_5),
     ("renc_23_5", renc_23_5),
+    ("dec_23_6", dec_23_6),
+    ("decm_23_6", decm_23_6),
     ("renc_23_6", renc_23_6),
+    ("dec_24_0", dec_24_0),
+    ("decm_24_0", decm_24_0),
+    ("dec_24_3", dec_24_3),
+    ("decm_24_3", decm_24_3),
+    ("dec_24_4", dec_24_4),
+    ("decm_24_4", decm_24_4),
     ("renc_24_4", renc_24_4),
+    ("dec_24_5", dec_24_5),
+    ("decm_24_5", decm_24_5),
     ("renc_24_5", renc_24_5),
+    ("dec_25_0", dec_25_0),
+    ("decm_25_0", decm_25_0),
+    ("dec_25_3", dec_25_3),
+    ("decm_25_3", decm_25_3),
+    ("dec_25_4", dec_25_4),
+    ("decm_25_4", decm_25_4),
     ("renc_25_4", renc_25_4),
+    ("dec_25_5", dec_25_5),
+    ("decm_25_5", decm_25_5),
     ("renc_25_5", renc_25_5),
+    ("dec_26_0", dec_26_0),
+    ("decm_26_0", decm_26_0),
+    ("dec_26_1", dec_26_1),
+    ("decm_26_1", decm_26_1),
     ("renc_26_1", renc_26_1),
+    ("dec_26_3", dec_26_3),
+    ("decm_26_3", decm_26_3),
     ("renc_26_3", renc_26_3),
+    ("dec_26_7", dec_26_7),
+    ("decm_26_7", decm_26_7),
     ("renc_26_7", renc_26_7),
+    ("dec_27_0", dec_27_0),
+    ("decm_27_0", decm_27_0),
+    ("dec_27_1", dec_27_1),
+    ("decm_27_1", decm_27_1),
     ("renc_27_1", renc_27_1),
+    ("dec_27_3", dec_27_3),
+    ("decm_27_3", decm_27_3),
     ("renc_27_3", renc_27_3),
+    ("dec_27_7", dec_27_7),
+    ("decm_27_7", decm_27_7),
     ("renc_27_7", renc_27_7),
+    ("dec_28_0", dec_28_0),
+    ("decm_28_0", decm_28_0),
+    ("dec_28_1", dec_28_1),
+    ("decm_28_1", decm_28_1),
     ("renc_28_1", renc_28_1),
+    ("dec_28_3", dec_28_3),
+    ("decm_28_3", decm_28_3),
     ("renc_28_3", renc_28_3),
+    ("dec_28_7", dec_28_7),
+    ("decm_28_7", decm_28_7),
     ("renc_28_7", renc_28_7),
+    ("dec_29_0", dec_29_0),
+    ("decm_29_0", decm_29_0),
+    ("dec_29_1", dec_29_1),
+    ("decm_29_1", decm_29_1),
+    ("dec_29_2", dec_29_2),
+    ("decm_29_2", decm_29_2),
     ("renc_29_2", renc_29_2),
+    ("dec_29_3", dec_29_3),
+    ("decm_29_3", decm_29_3),
     ("renc_29_3", renc_29_3),
+    ("dec_30_0", dec_30_0),
+    ("decm_30_0", decm_30_0),
+    ("dec_30_1", dec_30_1),
+    ("decm_30_1", decm_30_1),
     ("renc_30_1", renc_30_1),
+    ("dec_30_3", dec_30_3),
+    ("decm_30_3", decm_30_3),
     ("renc_30_3", renc_30_3),
+    ("dec_30_7", dec_30_7),
+    ("decm_30_7", decm_30_7),
     ("renc_30_7", renc_30_7),
+    ("dec_31_0", dec_31_0),
+    ("decm_31_0", decm_31_0),
+    ("dec_31_1", dec_31_1),
+    ("decm_31_1", decm_31_1),
     ("renc_31_1", renc_31_1),
+    ("dec_31_3", dec_31_3),
+    ("decm_31_3", decm_31_3),
     ("renc_31_3", renc_31_3),
+    ("dec_31_7", dec_31_7),
+    ("decm_31_7", decm_31_7),
     ("renc_31_7", renc_31_7),
+    ("dec_32_0", dec_32_0),
+    ("decm_32_0", decm_32_0),
+    ("dec_32_1", dec_32_1),
+    ("decm_32_1", decm_32_1),
+    ("dec_32_2", dec_32_2),
+    ("decm_32_2", decm_32_2),
     ("renc_32_2", renc_32_2),
+    ("dec_32_3", dec_32_3),
+    ("decm_32_3", decm_32_3),
     ("renc_32_3", renc_32_3),
+    ("dec_33_0", dec_33_0),
+    ("decm_33_0", decm_33_0),
+    ("dec_33_1", dec_33_1),
+    ("decm_33_1", decm_33_1),
     ("renc_33_1", renc_33_1),
+    ("dec_33_3", dec_33_3),
+    ("decm_33_3", decm_33_3),
     ("renc_33_3", renc_33_3),
+    ("dec_33_7", dec_33_7),
+    ("decm_33_7", decm_33_7),
     ("renc_33_7", renc_33_7),
+    ("dec_34_0", dec_34_0),
+    ("decm_34_0", decm_34_0),
+    ("dec_34_25", dec_34_25),
+    ("decm_34_25", decm_34_25),
+    ("dec_34_26", dec_34_26),
+    ("decm_34_26", decm_34_26),
     ("renc_34_26", renc_34_26),
+    ("dec_34_27", dec_34_27),
+    ("decm_34_27", decm_34_27),
     ("renc_34_27", renc_34_27),
+    ("dec_35_0", dec_35_0),
+    ("decm_35_0", decm_35_0),
+    ("dec_35_9", dec_35_9),
+    ("decm_35_9", decm_35_9),
+    ("dec_35_10", dec_35_10),
+    ("decm_35_10", decm_35_10),
     ("renc_35_10", renc_35_10),
+    ("dec_35_11", dec_35_11),
+    ("decm_35_11", decm_35_11),
     ("renc_35_11", renc_35_11),
+    ("dec_36_0", dec_36_0),
+    ("decm_36_0", decm_36_0),
+    ("dec_36_3", dec_36_3),
+    ("decm_36_3", decm_36_3),
+    ("dec_36_4", dec_36_4),
+    ("decm_36_4", decm_36_4),
     ("renc_36_4", renc_36_4),
+    ("dec_36_5", dec_36_5),
+    ("decm_36_5", decm_36_5),
     ("renc_36_5", renc_36_5),
+    ("dec_37_0", dec_37_0),
+    ("decm_37_0", decm_37_0),
+    ("dec_37_1", dec_37_1),
+    ("decm_37_1", decm_37_1),
     ("renc_37_1", renc_37_1),
+    ("dec_37_3", dec_37_3),
+    ("decm_37_3", decm_37_3),
     ("renc_37_3", renc_37_3),
+    ("dec_37_7", dec_37_7),
+    ("decm_37_7", decm_37_7),
     ("renc_37_7", renc_37_7),
+    ("dec_38_0", dec_38_0),
+    ("decm_38_0", decm_38_0),
+    ("dec_38_3", dec_38_3),
+    ("decm_38_3", decm_38_3),
+    ("dec_38_4", dec_38_4),
+    ("decm_38_4", decm_38_4),
     ("renc_38_4", renc_38_4),
+    ("dec_38_5", dec_38_5),
+    ("decm_38_5", decm_38_5),
     ("renc_38_5", renc_38_5),
+    ("dec_39_0", dec_39_0),
+    ("decm_39_0", decm_39_0),
     ("renc_39_0", renc_39_0),
+    ("dec_39_1", dec_39_1),
+    ("decm_39_1", decm_39_1),
     ("renc_39_1", renc_39_1),
+    ("dec_40_0", dec_40_0),
+    ("decm_40_0", decm_40_0),
+    ("dec_40_2", dec_40_2),
+    ("decm_40_2", decm_40_2),
+    ("dec_65535_0", dec_65535_0),
+    ("decm_65535_0", decm_65535_0),
+    ("dec_65535_2", dec_65535_2),
+    ("decm_65535_2", decm_65535_2),
     ("enc_0_2", enc_0_2),
     ("enc_1_2", enc_1_2),
     ("enc_1_4", enc_1_4),
